@@ -11,16 +11,24 @@ from ..model import (NOCONST, AnalysisError, FuncInfo, ancestors, chain, clone, 
 LEVEL = "other"
 EXPLANATION = (
     "Pairing discipline inside RequestCache, each as a dominance / post-dominance fact on the function's CFG: pop removes "
-    "the identifier and then cancels that cache's timeout task on every path; _on_timeout unregisters the identifier "
-    "before the user callback runs and completes each managed future only when it is not done; add stores only when not "
-    "shut down and the identifier is free, under the lock, and always registers the timeout task for that same cache; "
-    "NumberCache.__init__ / find_unclaimed_identifier refuse numbers in use; shutdown sets the flag, cancels tasks and "
-    "futures and clears the table under the lock; all five operations build the identifier through _create_identifier; "
-    "_identifiers is private to RequestCache; retrieve_cache turns a missing cache into a no-op; add resolves futures of "
-    "the offered cache only when it refuses the cache at shutdown. Constructs are recognised by what they compute (all "
-    "definitions of a local, decision tags, dispatch tables, private signatures bound at the call site) and followed into "
-    "private helpers and generator helpers. Same-iteration races of pop and expiry are asyncio scheduling semantics and are "
-    "not decided."
+    "the identifier and then cancels that cache's timeout task on every path, and lets the KeyError of a missing cache out; "
+    "_on_timeout unregisters the identifier before the user callback runs and completes each managed future only when it is "
+    "not done (tested, or InvalidStateError swallowed per future); add stores only when not shut down and the identifier is "
+    "free, under the lock, and always registers the timeout task for that same cache; NumberCache.__init__ / "
+    "find_unclaimed_identifier refuse numbers in use; shutdown sets the flag, cancels tasks, cancels every tied future that "
+    "is not done (no iteration of the traversal gets round the cancel; none is completed with a value instead) and clears "
+    "the table under the lock; all five operations build the identifier through _create_identifier; _identifiers is private "
+    "to RequestCache and its own new private helpers; retrieve_cache turns a missing cache into a no-op, runs the handler "
+    "only with the cache it popped and never registers that cache again; add resolves futures of the offered cache only "
+    "when it refuses the cache at shutdown. Constructs are recognised by what they compute: the rules read a private copy "
+    "of each function on which only behaviour-preserving rewrites are made (with suppress(E) as try/except, map / filter / "
+    "filterfalse / comprehension statements as the loops they run, operator and functools callables applied, generator "
+    "helpers and new helpers of such pipelines inlined, result objects - NamedTuple, dataclass, tuple, dict displays - split "
+    "into one local per field); definitions are the ones that reach a use on paths that can happen; decisions stored in "
+    "locals (constants, Enum members, outcomes of comparisons, None markers) are followed along each path, so a fact is "
+    "what holds on every path that can happen; dispatch tables denote their values; closures, callable objects and "
+    "private helpers are followed with parameters bound at the call site. Same-iteration races of pop and expiry are asyncio "
+    "scheduling semantics and are not decided."
 )
 
 RC = "ipv8/requestcache.py"
@@ -43,6 +51,19 @@ def _is_table(fi: FuncInfo, e: ast.AST | None) -> bool:
 def _tcalls(fi: FuncInfo, meth: str) -> list[ast.Call]:
     """calls `<table>.<meth>(...)` where <table> is self._identifiers or an alias of it"""
     return [c for c in calls(fi) if isinstance(c.func, ast.Attribute) and c.func.attr == meth and _is_table(fi, c.func.value)]
+
+
+def _table_clears(fi: FuncInfo) -> list[ast.AST]:
+    """where fi empties the table: `<table>.clear()`, or `self._identifiers = {}` / `dict()` - a fresh empty table in place of the old
+    one (no reference to the table exists outside RequestCache's own methods, which read the attribute each time: rule table-writers)"""
+    out: list[ast.AST] = list(_tcalls(fi, "clear"))
+    for st, t in stores(fi, TABLE):
+        v = strip_cast(st.value) if isinstance(st, (ast.Assign, ast.AnnAssign)) and st.value is not None else None
+        if isinstance(st, ast.Assign) and len(st.targets) != 1:
+            continue
+        if (isinstance(v, ast.Dict) and not v.keys) or (isinstance(v, ast.Call) and chain(v.func) == "dict" and not v.args and not v.keywords):
+            out.append(st)
+    return out
 
 
 def _tstores(fi: FuncInfo) -> list[ast.Assign]:
@@ -76,9 +97,57 @@ def _tdeletes(fi: FuncInfo) -> list[tuple[ast.Delete, ast.Subscript]]:
             if isinstance(t, ast.Subscript) and _is_table(fi, t.value)]
 
 
+def _own_cfg(fi: FuncInfo):
+    """a control-flow graph of fi for the def-use questions asked here (kept with the function node)"""
+    from ..cfg import CFG
+    g = fi.node.__dict__.get("_c10_cfg")
+    if g is None:
+        g = fi.node.__dict__["_c10_cfg"] = CFG(fi.node)
+    return g
+
+
+def _reaching_defs(fi: FuncInfo, use: ast.Name) -> tuple[bool, list[tuple[ast.stmt, ast.expr | None, int | None]]] | None:
+    """Which definitions of the local read at `use` can supply its value there: (the value at function entry can, [definitions]).
+    Paths are followed on the CFG; a definition is overwritten by the next one on the path; locals that only ever hold constants
+    (decision tags) are tracked along the path, so a path that sets a tag and later takes the test outcome its value excludes is not
+    followed.  None when the question cannot be put (the read is not evaluated by a statement of fi itself)."""
+    from ..model import enclosing_function
+    if not isinstance(use, ast.Name) or not isinstance(getattr(use, "ctx", None), ast.Load):
+        return None
+    if not any(a is fi.node for a in ancestors(use)) or enclosing_function(use) is not fi.node:
+        return None
+    memo = fi.node.__dict__.setdefault("_c10_reaching", {}).setdefault(id(_REPO[0]), {})
+    if id(use) in memo and memo[id(use)][0] is use:
+        return memo[id(use)][1]
+    cfg = _own_cfg(fi)
+    sites = set(cfg.nodes_for(use))
+    defs = local_defs(fi, use.id)
+    res = None
+    at: dict = {}                 # CFG node -> index of the definition made there
+    ok = bool(sites)
+    for i, (st, _, _) in enumerate(defs):
+        if any(isinstance(x, ast.NamedExpr) and x.target.id == use.id for x in ast.walk(st) if not isinstance(st, (ast.For, ast.AsyncFor, ast.With, ast.AsyncWith, ast.ExceptHandler))):
+            ok = False            # bound in the middle of an expression: not placed
+            break
+        ns = [n for n in cfg.nodes_for(st) if n.ast is st]
+        if not ns:
+            ok = False
+            break
+        for n in ns:
+            if n in at:
+                ok = False
+            at[n] = i
+    if ok:
+        _, found = _sym(fi, cfg).run(track=use.id, track_at=at, sites=sites)
+        res = (-1 in found, [defs[i] for i in sorted(found - {-1})])
+    memo[id(use)] = (use, res)
+    return res
+
+
 def _value_leaves(fi: FuncInfo, e: ast.AST, depth: int = 5) -> list[ast.AST]:
-    """The expressions a value can come from: both arms of a conditional expression and ALL definitions of a local name
-    (a parameter that is rebound contributes itself and its rebinding values).  Unknown definitions leave the name itself."""
+    """The expressions a value can come from: both arms of a conditional expression and ALL definitions of a local name that
+    reach the place where it is read (every definition, when the name is not read at a place of fi's own code; a parameter
+    contributes itself where its value at entry reaches).  Unknown definitions leave the name itself."""
     e = strip_cast(e)
     if depth <= 0:
         return [e]
@@ -86,7 +155,13 @@ def _value_leaves(fi: FuncInfo, e: ast.AST, depth: int = 5) -> list[ast.AST]:
         return _value_leaves(fi, e.body, depth) + _value_leaves(fi, e.orelse, depth)
     if isinstance(e, ast.Name):
         defs = local_defs(fi, e.id)
+        rd = _reaching_defs(fi, e) if len(defs) + (e.id in fi.params()) > 1 else None
         out: list[ast.AST] = [e] if (e.id in fi.params() or not defs) else []
+        if rd is not None and defs:
+            out = [e] if (rd[0] and e.id in fi.params()) else []
+            defs = rd[1]
+            if not out and not defs:
+                return [e]
         for _, v, idx in defs:
             if v is None or idx is not None:
                 out.append(e)
@@ -108,6 +183,17 @@ def _denotes(fi: FuncInfo, e: ast.AST | None, primary: str, also: tuple[str, ...
         return False
     texts = {norm(x) for x in _value_leaves(fi, e)}
     return primary in texts and texts <= {primary, *also}
+
+
+def _same_val(fi: FuncInfo, a: ast.AST | None, b: ast.AST | None) -> bool:
+    """a and b denote the same value: the same expression after following aliases, or - for locals with several definitions -
+    the one expression that every definition reaching each of them supplies"""
+    if a is None or b is None:
+        return False
+    if same_resolved(fi, a, b):
+        return True
+    la, lb = ({norm(x) for x in _value_leaves(fi, e)} for e in (a, b))
+    return len(la) == 1 and la == lb
 
 
 def _bind_call(call: ast.Call, tgt: FuncInfo) -> dict[str, ast.expr] | None:
@@ -141,7 +227,7 @@ def _ident_roles(ci: FuncInfo) -> tuple[str | None, str | None]:
     if "number" in ps and "prefix" in ps:
         return "number", "prefix"
     rets = [r for r in walk_no_nested(ci.node) if isinstance(r, ast.Return) and r.value is not None]
-    parts = _string_parts(resolve(ci, rets[0].value)) if len(rets) == 1 else None
+    parts = _string_parts(_fold_named_constants(ci, resolve(ci, rets[0].value))) if len(rets) == 1 else None
     vals = [v for k, v in parts or [] if k == "val"]
     if len(vals) == 2 and len(ps) == 2 and set(vals) == set(ps):
         return vals[1], vals[0]
@@ -169,15 +255,66 @@ def _ident_call_ok(fi: FuncInfo, e: ast.AST, num: str, pre: str) -> bool:
 
 
 def _absent_fact(fi: FuncInfo, f: Fact, is_key) -> bool:
-    """The fact says `key is not registered in the table`:  key not in T  /  T.get(key) is None."""
+    """The fact says `key is not registered in the table`:  key not in T (also T.keys(), operator.contains(T, key), T.__contains__(key))  /
+    T.get(key) is None  /  T.get(key, SENTINEL) is SENTINEL."""
     if f.op == "in" and not f.pos:
-        return _is_table(fi, f.right) and is_key(f.left)
-    if f.op == "is" and f.pos and const_value(f.right) is None and isinstance(f.right, ast.Constant):
+        r = strip_cast(f.right)
+        if isinstance(r, ast.Call) and isinstance(r.func, ast.Attribute) and r.func.attr == "keys" and not r.args and not r.keywords:
+            r = r.func.value
+        return _is_table(fi, r) and is_key(f.left)
+    if f.op == "truthy" and not f.pos:
+        g = strip_cast(resolve(fi, f.left))
+        if isinstance(g, ast.Call) and not g.keywords and not any(isinstance(a, ast.Starred) for a in g.args):
+            if chain(g.func) in ("contains", "operator.contains") and len(g.args) == 2:
+                return _is_table(fi, g.args[0]) and is_key(g.args[1])
+            if isinstance(g.func, ast.Attribute) and g.func.attr == "__contains__" and len(g.args) == 1:
+                return _is_table(fi, g.func.value) and is_key(g.args[0])
+        return False
+    if f.op == "is" and f.pos:
         g = resolve(fi, f.left)
-        if isinstance(g, ast.Call) and isinstance(g.func, ast.Attribute) and g.func.attr == "get" and _is_table(fi, g.func.value) and g.args:
-            default_none = len(g.args) == 1 and not g.keywords or (len(g.args) == 2 and isinstance(g.args[1], ast.Constant) and g.args[1].value is None)
-            return default_none and is_key(g.args[0])
+        if isinstance(g, ast.Call) and isinstance(g.func, ast.Attribute) and g.func.attr == "get" and _is_table(fi, g.func.value) and g.args and not g.keywords:
+            if const_value(f.right) is None and isinstance(f.right, ast.Constant):
+                default_none = len(g.args) == 1 or (len(g.args) == 2 and isinstance(g.args[1], ast.Constant) and g.args[1].value is None)
+                return default_none and is_key(g.args[0])
+            # a private sentinel as the default: the lookup gives it back exactly when the key is missing (no cache is the sentinel)
+            if len(g.args) == 2 and isinstance(strip_cast(f.right), ast.Name) and isinstance(strip_cast(g.args[1]), ast.Name) \
+                    and strip_cast(f.right).id == strip_cast(g.args[1]).id and strip_cast(f.right).id not in fi.params() and not local_defs(fi, strip_cast(f.right).id):
+                return is_key(g.args[0])
     return False
+
+
+def _probe_handlers(fi: FuncInfo, is_key) -> list[ast.ExceptHandler]:
+    """Handlers that are entered exactly when a key is not registered: `try: <table>[key]` (alone in the try body, as a statement or
+    bound to a name) with `except KeyError / LookupError`.  The read is the only thing in the body that can raise, so arriving
+    in the handler says the same as `key not in <table>`."""
+    out = []
+    for t in walk_no_nested(fi.node):
+        if not (isinstance(t, ast.Try) and len(t.body) == 1 and not t.finalbody):
+            continue
+        st = t.body[0]
+        v = st.value if isinstance(st, (ast.Expr, ast.Assign, ast.AnnAssign)) else None
+        if isinstance(st, ast.Assign) and not (len(st.targets) == 1 and isinstance(st.targets[0], ast.Name)):
+            v = None
+        v = strip_cast(v) if v is not None else None
+        if not (isinstance(v, ast.Subscript) and isinstance(v.ctx, ast.Load) and _is_table(fi, v.value) and isinstance(strip_cast(v.slice), ast.Name) and is_key(v.slice)):
+            continue
+        for h in t.handlers:
+            types = [] if h.type is None else [chain(x) for x in (h.type.elts if isinstance(h.type, ast.Tuple) else [h.type])]
+            if types and all(x in ("KeyError", "LookupError") for x in types):
+                out.append(h)
+            else:
+                break          # a broader clause first: later clauses are not reached by the KeyError
+    return out
+
+
+def _absent_on_every_path(ctx: Ctx, fi: FuncInfo, site: ast.AST, is_key) -> bool:
+    """every path to `site` enters a handler that says the key is not registered (see _probe_handlers)"""
+    hs = _probe_handlers(fi, is_key)
+    if not hs:
+        return False
+    cfg = ctx.cfg(fi)
+    nodes = cfg.nodes_for(site)
+    return bool(nodes) and all(cfg.must_pass_edges(n, lambda u, v, lab: v.kind == "handler" and any(v.ast is h for h in hs)) for n in nodes)
 
 
 def _present_fact(fi: FuncInfo, f: Fact, is_key=lambda e: True) -> bool:
@@ -192,33 +329,87 @@ def _is_none(e: ast.AST | None) -> bool:
 # --- decisions carried by a local: `refusal = "shutdown" | "duplicate" | None` assigned under the real tests and examined
 #     later (`if refusal == "shutdown":`).  A test of such a tag selects the assignments that can have produced the value;
 #     whatever held at every one of them held on this path too.
-def _const_leaves(e: ast.AST) -> list[ast.AST] | None:
+_REPO: list = [None]          # the repository of the running check (set by every rule entry point): resolves Enum / record classes
+
+
+def _use(ctx: Ctx) -> None:
+    _REPO[0] = ctx.repo
+
+
+_ENUM_BASES = ("Enum", "IntEnum", "StrEnum", "Flag", "IntFlag")
+
+
+class _Member(tuple):
+    """a member of an enumeration defined in the repository: ('enum', class name, canonical member name, plain)"""
+    __slots__ = ()
+
+
+def _class_of(module, e: ast.AST):
+    """the repository class an expression names (`K` / `mod.K`), else None"""
+    repo = _REPO[0]
+    if repo is None or module is None:
+        return None
+    try:
+        return repo.resolve_class_expr(module, e)
+    except Exception:  # noqa: BLE001
+        return None
+
+
+def _enum_member(module, e: ast.AST):
+    """`K.MEMBER` of an Enum class of the repository -> a value that identifies the member (aliases of one value share it)"""
+    if not (isinstance(e, ast.Attribute) and isinstance(e.value, (ast.Name, ast.Attribute))):
+        return NOCONST
+    k = _class_of(module, e.value)
+    if k is None or not any(b.split(".")[-1] in _ENUM_BASES for b in k.all_base_names()):
+        return NOCONST
+    if e.attr.startswith("_") or e.attr not in k.attrs or e.attr in k.methods:
+        return NOCONST
+    members = [n for n in k.attrs if not n.startswith("_") and n not in k.methods]
+    vals = {n: const_value(k.attrs[n]) for n in members}
+    canon = e.attr
+    if vals[e.attr] is not NOCONST:
+        canon = next(n for n in members if vals[n] is not NOCONST and vals[n] == vals[e.attr] and type(vals[n]) is type(vals[e.attr]))
+    elif not (isinstance(k.attrs[e.attr], ast.Call) and (chain(k.attrs[e.attr].func) or "").split(".")[-1] == "auto" and not k.attrs[e.attr].args):
+        return NOCONST          # a computed member value: may coincide with another member
+    plain = all(b.split(".")[-1] in ("Enum", "ABC", "object") for b in k.all_base_names()) and not ({"__bool__", "__eq__", "__len__"} & set(k.methods))
+    return _Member(("enum", k.name, canon, plain))
+
+
+def _kconst(fi: FuncInfo | None, e: ast.AST):
+    """the value of a self-identifying expression: a literal constant or a member of a repository Enum; NOCONST otherwise"""
+    v = const_value(e)
+    if v is not NOCONST or fi is None:
+        return v
+    return _enum_member(fi.module, strip_cast(e))
+
+
+def _const_leaves(e: ast.AST, fi: FuncInfo | None = None) -> list[ast.AST] | None:
     """the constant alternatives of `c1 if t else c2 ...`; None when some alternative is not a constant"""
     e = strip_cast(e)
     if isinstance(e, ast.IfExp):
-        a, b = _const_leaves(e.body), _const_leaves(e.orelse)
+        a, b = _const_leaves(e.body, fi), _const_leaves(e.orelse, fi)
         return None if a is None or b is None else a + b
-    return [e] if const_value(e) is not NOCONST else None
+    return [e] if _kconst(fi, e) is not NOCONST else None
 
 
 def _tag_vars(fi: FuncInfo) -> dict[str, list[tuple[ast.stmt, ast.AST, object]]]:
     """locals that only ever hold constants: name -> [(assigning statement, constant expression (the site), value)]"""
     hit = fi.node.__dict__.get("_c10_tags")
-    if hit is not None:
-        return hit
+    if hit is not None and hit[0] is _REPO[0]:
+        return hit[1]
     out: dict = {}
     names = {n.id for n in walk_no_nested(fi.node) if isinstance(n, ast.Name) and isinstance(n.ctx, ast.Store)}
     for v in sorted(names - set(fi.params())):
         alts = []
         for st, val, idx in local_defs(fi, v):
-            leaves = _const_leaves(val) if val is not None and idx is None else None
+            leaves = _const_leaves(val, fi) if val is not None and idx is None else None
             if leaves is None:
                 alts = None
                 break
-            alts += [(st, x, const_value(x)) for x in leaves]
+            alts += [(st, x, _kconst(fi, x)) for x in leaves]
         if alts:
             out[v] = alts
-    fi.node.__dict__["_c10_tags"] = out
+    fi.node.__dict__["_c10_tags"] = (_REPO[0], out)
     return out
 
 
@@ -231,21 +422,39 @@ def _tag_of(f: Fact, tags) -> tuple[str, Fact] | None:
     return None
 
 
-def _consistent(k, f: Fact) -> bool:
+def _k_equal(k, c) -> bool | None:
+    """k == c for two self-identifying values; None when it cannot be told (a member of a mixed-in Enum against a literal)"""
+    km, cm = isinstance(k, _Member), isinstance(c, _Member)
+    if km and cm:
+        return tuple(k) == tuple(c) if k[1] == c[1] or (k[3] and c[3]) else None
+    if km or cm:
+        m, o = (k, c) if km else (c, k)
+        return False if (o is None or m[3]) else None
+    return k == c and isinstance(k, bool) == isinstance(c, bool)
+
+
+def _consistent(k, f: Fact, fi: FuncInfo | None = None) -> bool:
     """can a variable holding constant k satisfy fact f (about that variable)?  Unknown forms: yes."""
     if f.op == "truthy":
+        if isinstance(k, _Member):
+            return f.pos if k[3] else True          # members of a plain Enum are truthy
         return bool(k) is f.pos
-    c = const_value(f.right) if f.right is not None else NOCONST
+    c = _kconst(fi, f.right) if f.right is not None else NOCONST
     if f.op == "eq" and c is not NOCONST:
-        return (k == c and isinstance(k, bool) == isinstance(c, bool)) is f.pos
-    if f.op == "is" and c is not NOCONST and (c is None or isinstance(c, bool)):
+        r = _k_equal(k, c)
+        return True if r is None else r is f.pos
+    if f.op == "is" and c is not NOCONST and (c is None or isinstance(c, (bool, _Member)) or isinstance(k, _Member)):
+        if isinstance(c, _Member) or isinstance(k, _Member):
+            r = _k_equal(k, c) if (isinstance(c, _Member) and isinstance(k, _Member)) else False
+            return True if r is None else r is f.pos
         return (k is c) is f.pos
-    if f.op == "in" and isinstance(f.right, (ast.Tuple, ast.List, ast.Set)) and c is not NOCONST:
-        return (k in c) is f.pos
-    if f.op == "in" and isinstance(f.right, (ast.List, ast.Set)):
-        vals = [const_value(x) for x in f.right.elts]
+    if f.op == "in" and isinstance(f.right, (ast.Tuple, ast.List, ast.Set)):
+        vals = [_kconst(fi, x) for x in f.right.elts]
         if all(x is not NOCONST for x in vals):
-            return (k in vals) is f.pos
+            rs = [_k_equal(k, x) for x in vals]
+            if any(r is True for r in rs):
+                return f.pos
+            return True if any(r is None for r in rs) else not f.pos
     return True
 
 
@@ -272,58 +481,181 @@ def _facts(fi: FuncInfo, cfg, site, depth: int = 2) -> list[Fact]:
             if len(d) == 1 and d[0][1] is not None and d[0][2] is None and isinstance(strip_cast(d[0][1]), (ast.BoolOp, ast.UnaryOp, ast.Compare)):
                 add(_atoms_with_polarity(strip_cast(d[0][1]), f.pos))
     for v, fs in about.items():
-        feasible = [(st, x) for st, x, k in tags[v] if all(_consistent(k, f) for f in fs)]
+        feasible = [(st, x) for st, x, k in tags[v] if all(_consistent(k, f, fi) for f in fs)]
         if not feasible:
             continue
         per = [_facts(fi, cfg, x if isinstance(parent(x), ast.IfExp) else st, depth - 1) for st, x in feasible]
         add([x for x in per[0] if all(any(x.atom is y.atom and x.pos == y.pos for y in o) for o in per[1:])])
+    if depth >= 2:
+        from ..cfg import Node
+        nodes = [site] if isinstance(site, Node) else cfg.nodes_for(site)
+        if nodes:
+            add(_sym(fi, cfg).facts(nodes))
     return out
 
 
-def _reach_assuming(cfg, fi: FuncInfo, contradicts, *, cut_nodes=(), follow_exc: bool = True) -> set:
-    """Nodes reachable from the entry on paths that are feasible when no fact f with contradicts(f) ever holds: condition
-    edges with such a fact are not taken, and tag variables are tracked along the path (an assignment made where a
-    contradicting fact holds is not taken; a later test of the tag follows only the outcome its value allows)."""
-    tags = _tag_vars(fi)
-    defs_at: dict = {}
-    for v, alts in tags.items():
-        for st, x, k in alts:
-            site = x if isinstance(parent(x), ast.IfExp) else st
-            if any(contradicts(f) for f in facts_at(cfg, site)):
+# --- decisions carried by locals, generally.  A path through a function fixes what its decision locals hold: a local set to a
+#     constant / Enum member keeps that value until it is rebound, a local bound to a comparison holds its outcome, one bound to
+#     `A if t else B` holds A exactly when t held.  _Sym walks the CFG with these values ("which paths can happen at all"): a test of
+#     such a local is followed only along the outcome its value allows.  What holds on every path that can happen to a place are
+#     that place's facts - including the outcomes of tests that were made earlier and stored (flags, verdicts, `x = None` markers,
+#     fields of result objects after _scalarise_records).
+_TRUTHY, _FALSY = ("truthy",), ("falsy",)          # outcome of `a and b` / `a or b`: only its truth is known
+
+
+class _Sym:
+    def __init__(self, fi: FuncInfo, cfg) -> None:
+        self.fi, self.cfg, self.repo = fi, cfg, _REPO[0]
+        tested: set[str] = set()
+        for n in cfg.nodes:
+            if n.kind == "cond" and n.ast is not None:
+                f = fact_of(n.ast, True)
+                for e in (f.left, f.right):
+                    if isinstance(e, ast.Name):
+                        tested.add(e.id)
+        params = set(fi.params())
+        self.effects: dict = {}          # node -> [(var, [(value | None for unknown, [(test expr, outcome)])], only on the True edge)]
+        self.vars: set[str] = set()
+        for v in sorted(tested - params):
+            defs = local_defs(fi, v)
+            placed, informative = [], False
+            for st, val, idx in defs:
+                if any(isinstance(x, ast.NamedExpr) and x.target.id == v for x in ast.walk(st)
+                       if not isinstance(st, (ast.For, ast.AsyncFor, ast.With, ast.AsyncWith, ast.ExceptHandler))):
+                    placed = None
+                    break
+                ns = [n for n in cfg.nodes_for(st) if n.ast is st]
+                if not ns:
+                    placed = None
+                    break
+                alts = self._alts(val, []) if val is not None and idx is None else [(None, [])]
+                informative = informative or any(k is not None for k, _ in alts)
+                placed.append((ns, alts, isinstance(st, (ast.For, ast.AsyncFor))))
+            if not placed or not informative:
                 continue
-            for n in cfg.nodes_for(st):
-                if n.ast is st:
-                    defs_at.setdefault(n, {}).setdefault(v, []).append(k)
-    assigned = {n for v, alts in tags.items() for st, _, _ in alts for n in cfg.nodes_for(st) if n.ast is st}
-    cut_nodes = set(cut_nodes)
-    seen: set = set()
-    reached: set = set()
-    todo = [(cfg.entry, ())]
-    while todo:
-        u, env = todo.pop()
-        if (u, env) in seen or u in cut_nodes:
-            continue
-        seen.add((u, env))
-        reached.add(u)
-        envs = [dict(env)]
-        if u in assigned:
-            here = defs_at.get(u, {})
-            vs = [v for v, alts in tags.items() if any(n is u for st, _, _ in alts for n in cfg.nodes_for(st))]
-            for v in vs:
-                envs = [{**e, v: k} for e in envs for k in here.get(v, [])]
-        for e in envs:
+            self.vars.add(v)
+            for ns, alts, loop in placed:
+                for n in ns:
+                    self.effects.setdefault(n, []).append((v, alts, loop))
+        self._facts: dict = {}
+
+    def _alts(self, e: ast.AST, conds: list) -> list:
+        e = strip_cast(e)
+        if isinstance(e, ast.IfExp):
+            return self._alts(e.body, conds + [(e.test, True)]) + self._alts(e.orelse, conds + [(e.test, False)])
+        k = _kconst(self.fi, e)
+        if k is not NOCONST:
+            return [(("k", k), conds)]
+        if isinstance(e, ast.Compare) or (isinstance(e, ast.UnaryOp) and isinstance(e.op, ast.Not)):
+            return [(("k", True), conds + [(e, True)]), (("k", False), conds + [(e, False)])]
+        if isinstance(e, ast.BoolOp):
+            return [(("k", _TRUTHY), conds + [(e, True)]), (("k", _FALSY), conds + [(e, False)])]
+        return [(None, conds)]
+
+    def _holds(self, env: dict, f: Fact) -> bool:
+        """can the outcome f of a test happen with the values in env?"""
+        t = _tag_of(f, self.vars)
+        if t is None or t[0] not in env:
+            return True
+        k = env[t[0]]
+        if k is _TRUTHY or k is _FALSY:
+            return (k is _TRUTHY) is f.pos if t[1].op == "truthy" else True
+        return _consistent(k, t[1], self.fi)
+
+    def run(self, *, starts=None, cut_edge=None, cut_label=None, cut_nodes=(), follow_exc: bool = True, contradicts=None,
+            track: str | None = None, track_at: dict | None = None, sites=()) -> tuple[set, set]:
+        """-> (nodes that can be reached, definitions of `track` (indexes from track_at, -1 for the value at entry) seen at `sites`)"""
+        cfg = self.cfg
+        cut_nodes, sites = set(cut_nodes), set(sites)
+        reached: set = set()
+        found: set = set()
+        seen: set = set()
+        todo = [(n, (), -1) for n in ([cfg.entry] if starts is None else starts)]
+        while todo:
+            u, env, last = todo.pop()
+            if (u, env, last) in seen or u in cut_nodes:
+                continue
+            seen.add((u, env, last))
+            reached.add(u)
+            if u in sites:
+                found.add(last)
             for w, lab in u.succ:
-                if lab == "exc" and not follow_exc:
+                if lab == "exc":
+                    if follow_exc:
+                        todo.append((w, env, last))          # the statement did not complete: nothing was bound
                     continue
+                if cut_edge is not None and cut_edge(u, w, lab):
+                    continue
+                d = dict(env)
                 if u.kind == "cond" and lab in (True, False) and u.ast is not None:
                     f = fact_of(u.ast, lab)
-                    if contradicts(f):
+                    if (contradicts is not None and contradicts(f)) or not self._holds(d, f):
                         continue
-                    t = _tag_of(f, tags)
-                    if t is not None and t[0] in e and not _consistent(e[t[0]], t[1]):
+                envs = [d]
+                for v, alts, loop in self.effects.get(u, ()):
+                    if loop and lab is not True:
                         continue
-                todo.append((w, tuple(sorted(e.items(), key=lambda kv: kv[0]))))
-    return reached
+                    nxt = []
+                    for e in envs:
+                        for k, labels in alts:
+                            if cut_label is not None and any(x is cut_label[0] and pol is cut_label[1] for x, pol in labels):
+                                continue
+                            if any(not self._holds(e, a) or (contradicts is not None and contradicts(a))
+                                   for x, pol in labels for a in _atoms_with_polarity(x, pol)):
+                                continue
+                            e2 = dict(e)
+                            if k is None:
+                                e2.pop(v, None)
+                            else:
+                                e2[v] = k[1]
+                            nxt.append(e2)
+                    envs = nxt
+                nl = last
+                if track_at is not None and u in track_at and not (u.kind == "loop" and lab is not True):
+                    nl = track_at[u]
+                for e in envs:
+                    todo.append((w, tuple(sorted(e.items(), key=lambda kv: kv[0])), nl))
+        return reached, found
+
+    def facts(self, site_nodes: list) -> list[Fact]:
+        """outcomes of tests (made in conditions, or earlier and stored in a decision local) that every path to the site has taken"""
+        key = tuple(sorted(n.id for n in site_nodes))
+        if key in self._facts:
+            return self._facts[key]
+        out: list[Fact] = []
+        base, _ = self.run()
+        if any(n in base for n in site_nodes):
+            for c in self.cfg.nodes:
+                if c.kind != "cond" or c not in base or c.ast is None:
+                    continue
+                for pol in (True, False):
+                    if not any(lab is pol for _, lab in c.succ) or any(c is n for n in site_nodes):
+                        continue
+                    r, _ = self.run(cut_edge=lambda u, w, lab, c=c, pol=pol: u is c and lab is pol)
+                    if not any(n in r for n in site_nodes):
+                        out.append(fact_of(c.ast, pol))
+            labels = {(id(x), pol): (x, pol) for u in base for _, alts, _ in self.effects.get(u, ()) for _, ls in alts for x, pol in ls}
+            for x, pol in labels.values():
+                r, _ = self.run(cut_label=(x, pol))
+                if not any(n in r for n in site_nodes):
+                    out += _atoms_with_polarity(x, pol)
+        self._facts[key] = out
+        return out
+
+
+def _sym(fi: FuncInfo, cfg) -> _Sym:
+    store = fi.node.__dict__.setdefault("_c10_sym", {})
+    hit = store.get(id(cfg))
+    if hit is None or hit.cfg is not cfg or hit.repo is not _REPO[0]:
+        hit = store[id(cfg)] = _Sym(fi, cfg)
+    return hit
+
+
+def _reach_assuming(cfg, fi: FuncInfo, contradicts, *, cut_nodes=(), follow_exc: bool = True) -> set:
+    """Nodes reachable from the entry on paths that can happen when no fact f with contradicts(f) ever holds: condition edges with
+    such a fact are not taken, and decision locals are tracked along the path (a value chosen by a test with a contradicting
+    outcome is not assigned; a later test of the local follows only the outcome its value allows)."""
+    return _sym(fi, cfg).run(contradicts=contradicts, cut_nodes=cut_nodes, follow_exc=follow_exc)[0]
 
 
 # --- where do the elements of an iteration come from?  kinds: cache (a value of the table / the cache parameter),
@@ -349,6 +681,20 @@ def _unbind(target: ast.AST, env: dict) -> None:
             env.pop(n.id, None)
 
 
+def _managed_names() -> tuple[str, ...]:
+    """attribute names that give a cache's list of (future, on_timeout value) pairs: the `managed_futures` property and the attribute it
+    returns unchanged"""
+    repo = _REPO[0]
+    names = ["managed_futures"]
+    k = repo.try_cls("NumberCache", RC) if repo is not None else None
+    m = k.lookup("managed_futures") if k is not None else None
+    if m is not None:
+        rets = [r for r in walk_no_nested(m.node) if isinstance(r, ast.Return)]
+        if len(rets) == 1 and isinstance(rets[0].value, ast.Attribute) and chain(rets[0].value.value) == m.params()[0]:
+            names.append(rets[0].value.attr)
+    return tuple(names)
+
+
 def _elem_kind(fi: FuncInfo, e: ast.AST, env: dict, depth: int = 3) -> str | None:
     e = strip_cast(e)
     if isinstance(e, ast.Name):
@@ -369,12 +715,12 @@ def _elem_kind(fi: FuncInfo, e: ast.AST, env: dict, depth: int = 3) -> str | Non
         return None
     if isinstance(e, ast.Subscript) and isinstance(e.slice, ast.Constant) and e.slice.value == 0 and _elem_kind(fi, e.value, env, depth) == "pair":
         return "future"
-    if isinstance(e, ast.Attribute) and e.attr == "managed_futures" and _elem_kind(fi, e.value, env, depth) == "cache":
+    if isinstance(e, ast.Attribute) and e.attr in _managed_names() and _elem_kind(fi, e.value, env, depth) == "cache":
         return "pairs"
     return None
 
 
-def _seq_kind(fi: FuncInfo, e: ast.AST, env: dict, depth: int = 4) -> str | None:
+def _seq_kind(fi: FuncInfo, e: ast.AST, env: dict, depth: int = 8) -> str | None:
     """Kind of the elements produced by iterating e completely (None: unknown, filtered or partial)."""
     e = strip_cast(e)
     if depth <= 0:
@@ -397,15 +743,17 @@ def _seq_kind(fi: FuncInfo, e: ast.AST, env: dict, depth: int = 4) -> str | None
             return "cache"
         if isinstance(e.func, ast.Attribute) and e.func.attr == "items" and not e.args and not e.keywords and _is_table(fi, e.func.value):
             return "item"
-        if c == "map" and len(e.args) == 2 and not e.keywords and _seq_kind(fi, e.args[1], env, depth - 1) == "pair":
-            # map(itemgetter(0), pairs) / map(lambda p: p[0], pairs): the futures of the pairs
-            f = strip_cast(resolve(fi, e.args[0]))
-            if isinstance(f, ast.Call) and (chain(f.func) or "").split(".")[-1] == "itemgetter" and len(f.args) == 1 and const_value(f.args[0]) == 0:
-                return "future"
-            if isinstance(f, ast.Lambda) and len(f.args.args) == 1 and not f.args.defaults and \
-                    _elem_kind(fi, f.body, {**env, f.args.args[0].arg: "pair"}) == "future":
-                return "future"
-            return None
+        if c == "map" and len(e.args) == 2 and not e.keywords and not any(isinstance(a, ast.Starred) for a in e.args):
+            # map(F, S): what F makes of an element of S - itemgetter(0) / lambda p: p[0] of a pair is its future,
+            # attrgetter("managed_futures") of a cache is its list of pairs
+            k = _seq_kind(fi, e.args[1], env, depth - 1)
+            if k is None:
+                return None
+            x = "element_"
+            while x in env or x in _names(fi.node):
+                x += "_"
+            k2 = _elem_kind(fi, _apply_callable(fi, e.args[0], ast.Name(x, ast.Load())), {**env, x: k})
+            return k2 if k2 in ("cache", "pair", "pairs", "future") else None
         if c is not None and (c == "chain.from_iterable" or c.endswith(".chain.from_iterable")) and len(e.args) == 1 and not e.keywords:
             return "pair" if _seq_kind(fi, e.args[0], env, depth - 1) == "pairs" else None
         if c is not None and (c == "chain" or c.endswith("itertools.chain")) and len(e.args) == 1 and isinstance(e.args[0], ast.Starred) and not e.keywords:
@@ -490,6 +838,34 @@ def _only_done_guards(fi: FuncInfo, facts: list[Fact], fut: ast.AST) -> bool:
     return True
 
 
+def _fold_named_constants(fi: FuncInfo, e: ast.AST) -> ast.AST:
+    """a copy of e in which names of module constants and never reassigned class attributes (`_SEPARATOR`, `self._TEMPLATE`) that hold
+    a string are replaced by that string: the pieces of a string assembled from tables are then literal again"""
+    repo = _REPO[0]
+    if repo is None or e is None:
+        return e
+    own = set(fi.params()) | {n.id for n in walk_no_nested(fi.node) if isinstance(n, ast.Name) and isinstance(n.ctx, ast.Store)}
+
+    class _F(ast.NodeTransformer):
+        def visit_Name(self, n):
+            if isinstance(n.ctx, ast.Load) and n.id not in own:
+                v = repo.resolve_const(fi.module, n)
+                if isinstance(v, str):
+                    return ast.copy_location(ast.Constant(v), n)
+            return n
+
+        def visit_Attribute(self, n):
+            if isinstance(n.ctx, ast.Load) and isinstance(n.value, ast.Name) and (n.value.id in ("self", "cls") or n.value.id not in own):
+                k = fi.cls if n.value.id in ("self", "cls") else _class_of(fi.module, n.value)
+                if k is not None and not any(t.attr == n.attr for c in k.mro() for m in c.methods.values()
+                                             for _, t in stores(m, lambda ch: ch.count(".") == 1) if isinstance(t, ast.Attribute)):
+                    v = repo.resolve_const(fi.module, n, fi.cls)
+                    if isinstance(v, str):
+                        return ast.copy_location(ast.Constant(v), n)
+            return self.generic_visit(n)
+    return _F().visit(clone(e))
+
+
 def _string_parts(e: ast.AST) -> list[tuple[str, str]] | None:
     """A string-building expression as [('lit', text) | ('val', source)]: f-string, '%'-format, str.format, '+'."""
     if isinstance(e, ast.Constant) and isinstance(e.value, str):
@@ -500,6 +876,10 @@ def _string_parts(e: ast.AST) -> list[tuple[str, str]] | None:
             if isinstance(v, ast.FormattedValue):
                 if v.format_spec is not None or v.conversion not in (-1, 115):
                     return None
+                if isinstance(v.value, ast.Constant) and isinstance(v.value.value, str):
+                    if v.value.value:
+                        out.append(("lit", v.value.value))
+                    continue
                 out.append(("val", norm(v.value)))
             else:
                 p = _string_parts(v)
@@ -538,11 +918,15 @@ def _string_parts(e: ast.AST) -> list[tuple[str, str]] | None:
         if h is not None:
             if not vals:
                 return None
+            nxt = vals.pop(0)
+            i += len(h)
+            if isinstance(nxt, ast.Constant) and isinstance(nxt.value, str):
+                lit += nxt.value
+                continue
             if lit:
                 out.append(("lit", lit))
                 lit = ""
-            out.append(("val", norm(vals.pop(0))))
-            i += len(h)
+            out.append(("val", norm(nxt)))
         elif fmt[i] in "%{}":
             return None
         else:
@@ -625,8 +1009,9 @@ def _expand_genexp(fn_node: ast.AST, st: ast.For, g: ast.GeneratorExp) -> list |
     """for T in (E for x in S if C ...): BODY   ->   for x in S: if C: ...: T = E; BODY"""
     if any(x.is_async for x in g.generators) or _own_level(st.body, (ast.Break,)):
         return None
+    first = {id(x) for x in ast.walk(g.generators[0].iter)}          # evaluated once, in the enclosing scope: copied unchanged
     if any(isinstance(x, (ast.Lambda, ast.ListComp, ast.SetComp, ast.DictComp, ast.GeneratorExp, ast.NamedExpr, ast.Yield, ast.YieldFrom, ast.Await))
-           for x in ast.walk(g) if x is not g):
+           for x in ast.walk(g) if x is not g and (id(x) not in first or isinstance(x, (ast.NamedExpr, ast.Yield, ast.YieldFrom, ast.Await)))):
         return None
     own = {x.id for gen in g.generators for x in ast.walk(gen.target) if isinstance(x, ast.Name)}
     outside = {x.id for x in ast.walk(fn_node) if isinstance(x, ast.Name) and not any(a is g for a in ancestors(x))}
@@ -740,43 +1125,833 @@ def _expand_gencall(fn_node: ast.AST, st: ast.For, call: ast.Call, t: FuncInfo) 
     return pre + holder.body
 
 
+# --- result objects made explicit.  A local that only ever holds a freshly built record (NamedTuple / dataclass instance, tuple
+#     or dict display) and is only read field by field is a bundle of independent locals: `r = K(a, b)` ... `r.x` is
+#     `r_x = a; r_y = b` ... `r_x`.  The rules then see which VALUE each field has on each path (decision tags, identifiers).
+def _record_fields(module, k) -> tuple[list[str], dict[str, ast.expr]] | None:
+    """(positional field order, defaults) of a NamedTuple / dataclass of the repository whose construction does nothing but store
+    its arguments (no own __init__ / __new__ / __post_init__, no base class with fields)"""
+    if k is None or {"__init__", "__new__", "__post_init__"} & set(k.methods):
+        return None
+    bases = [b.split(".")[-1] for b in k.base_names]
+    decs = [(chain(d.func) if isinstance(d, ast.Call) else chain(d)) or "" for d in k.node.decorator_list]
+    is_nt = bases == ["NamedTuple"]
+    is_dc = any(d.split(".")[-1] == "dataclass" for d in decs) and all(b in ("ABC", "object") for b in bases)
+    if not (is_nt or is_dc) or (is_nt and decs):
+        return None
+    if is_dc and any(isinstance(d, ast.Call) and any(kw.arg in ("init", "kw_only") for kw in d.keywords) for d in k.node.decorator_list):
+        return None
+    order, defaults = [], {}
+    for st in k.node.body:
+        if not (isinstance(st, ast.AnnAssign) and isinstance(st.target, ast.Name)):
+            continue
+        if "ClassVar" in norm(st.annotation):
+            continue
+        order.append(st.target.id)
+        if st.value is not None:
+            if const_value(st.value) is NOCONST and _enum_member(module, st.value) is NOCONST:
+                return None          # field(default_factory=..) and other computed defaults
+            defaults[st.target.id] = st.value
+    if any(n in k.methods for n in order) or not order:
+        return None
+    return order, defaults
+
+
+def _record_value(fi: FuncInfo, v: ast.AST) -> tuple[object, list[tuple[object, ast.expr]]] | None:
+    """a record display: (shape, [(field, value expression) in evaluation order]); fields are names, positions or dict keys"""
+    v = strip_cast(v)
+    if isinstance(v, ast.Tuple) and v.elts and not any(isinstance(x, ast.Starred) for x in v.elts):
+        return ("tuple", len(v.elts)), list(enumerate(v.elts))
+    if isinstance(v, ast.Dict) and v.keys and all(k is not None and isinstance(const_value(k), str) for k in v.keys) \
+            and len({const_value(k) for k in v.keys}) == len(v.keys):
+        return ("dict", tuple(sorted(const_value(k) for k in v.keys))), [(const_value(k), x) for k, x in zip(v.keys, v.values)]
+    if isinstance(v, ast.Call) and not any(isinstance(a, ast.Starred) for a in v.args) and all(k.arg is not None for k in v.keywords):
+        k = _class_of(fi.module, v.func)
+        rf = _record_fields(fi.module, k)
+        if rf is None:
+            return None
+        order, defaults = rf
+        if len(v.args) > len(order):
+            return None
+        got = list(zip(order, v.args))
+        for kw in v.keywords:
+            if kw.arg not in order or kw.arg in [f for f, _ in got]:
+                return None
+            got.append((kw.arg, kw.value))
+        for f in order:
+            if f not in [g for g, _ in got]:
+                if f not in defaults:
+                    return None
+                got.append((f, defaults[f]))
+        return ("class", k.name, tuple(order), any(b.split(".")[-1] == "NamedTuple" for b in k.base_names)), got
+    return None
+
+
+def _scalarise_records(fi: FuncInfo, node: ast.AST) -> bool:
+    """rewrite (in the private copy `node`) every record-holding local into one local per field; True when something changed"""
+    from ..cfg import expr_may_raise
+    from ..model import enclosing_function
+    tmp = FuncInfo(fi.name, fi.qualname, node, fi.module, fi.cls)
+    a = node.args
+    params = {x.arg for x in a.posonlyargs + a.args + a.kwonlyargs} | ({a.vararg.arg} if a.vararg else set()) | ({a.kwarg.arg} if a.kwarg else set())
+    all_names = {x.id for x in ast.walk(node) if isinstance(x, ast.Name)} | {x.arg for x in ast.walk(node) if isinstance(x, ast.arg)}
+    occ: dict[str, list[ast.Name]] = {}
+    for x in ast.walk(node):
+        if isinstance(x, ast.Name):
+            occ.setdefault(x.id, []).append(x)
+    plans = []
+    for v, names in sorted(occ.items()):
+        if v in params or not any(isinstance(x.ctx, ast.Store) for x in names):
+            continue
+        if any(enclosing_function(x) is not node for x in names) or any(isinstance(x, (ast.Global, ast.Nonlocal)) and v in x.names for x in ast.walk(node)):
+            continue
+        shape, defs, loads, unpacks, probes, good = None, [], [], [], [], True
+        for x in names:
+            p_ = parent(x)
+            if isinstance(x.ctx, ast.Store):
+                st = p_
+                val = st.value if (isinstance(st, ast.Assign) and len(st.targets) == 1 and st.targets[0] is x) or \
+                    (isinstance(st, ast.AnnAssign) and st.target is x and st.value is not None) else None
+                rec = _record_value(tmp, val) if val is not None else None
+                if rec is None or (shape is not None and rec[0] != shape) or any(v in _names(e) for _, e in rec[1]):
+                    good = False
+                    break
+                if any(isinstance(t, ast.Try) for t in ancestors(st)) and any(expr_may_raise(e) for _, e in rec[1]):
+                    good = False          # a partly evaluated display whose exception is caught here would leave some fields rebound
+                    break
+                if any(isinstance(y, ast.NamedExpr) for _, e in rec[1] for y in ast.walk(e)):
+                    good = False
+                    break
+                shape = rec[0]
+                defs.append((st, rec[1]))
+            elif isinstance(x.ctx, ast.Load):
+                if isinstance(p_, ast.Attribute) and p_.value is x and isinstance(p_.ctx, ast.Load):
+                    loads.append((p_, p_.attr))
+                elif isinstance(p_, ast.Subscript) and p_.value is x and isinstance(p_.ctx, ast.Load) and isinstance(const_value(p_.slice), (int, str)) \
+                        and not isinstance(const_value(p_.slice), bool):
+                    loads.append((p_, const_value(p_.slice)))
+                elif isinstance(p_, ast.Assign) and p_.value is x and len(p_.targets) == 1 and isinstance(p_.targets[0], (ast.Tuple, ast.List)) \
+                        and all(isinstance(t, ast.Name) for t in p_.targets[0].elts):
+                    unpacks.append(p_)
+                elif isinstance(p_, ast.Call) and isinstance(p_.func, ast.Name) and p_.func.id in ("len", "isinstance", "_is_sequence") and p_.args \
+                        and p_.args[0] is x and not p_.keywords and len(p_.args) == (2 if p_.func.id == "isinstance" else 1):
+                    probes.append(p_)          # what kind of thing the record is: answered from its shape below
+                else:
+                    good = False
+                    break
+            else:
+                good = False
+                break
+        if not good or shape is None or not defs:
+            continue
+        # which spellings read which field
+        if shape[0] == "tuple":
+            fields = list(range(shape[1]))
+            key = {f: f for f in fields} | {f - shape[1]: f for f in fields}
+        elif shape[0] == "dict":
+            fields = list(shape[1])
+            key = {f: f for f in fields}
+        else:
+            fields = list(shape[2])
+            key = {f: f for f in fields}
+            if shape[3]:
+                key |= {i: f for i, f in enumerate(fields)} | {i - len(fields): f for i, f in enumerate(fields)}
+        if shape[0] == "dict" and any(not isinstance(p_, ast.Subscript) for p_, _ in loads) or shape[0] == "tuple" and any(not isinstance(p_, ast.Subscript) for p_, _ in loads):
+            continue
+        if shape[0] == "class" and any(isinstance(p_, ast.Subscript) and not isinstance(k_, int) for p_, k_ in loads):
+            continue
+        if any(k_ not in key for _, k_ in loads) or (unpacks and (shape[0] == "dict" or (shape[0] == "class" and 0 not in key))):
+            continue
+        if any(len(u.targets[0].elts) != len(fields) or v in {t.id for t in u.targets[0].elts} for u in unpacks):
+            continue
+        answers = {}
+        is_seq = shape[0] == "tuple" or (shape[0] == "class" and shape[3])
+        for c_ in probes:
+            if c_.func.id == "len" and is_seq:
+                answers[id(c_)] = len(fields)
+            elif c_.func.id == "_is_sequence" and shape[0] != "dict":
+                answers[id(c_)] = is_seq
+            elif c_.func.id == "isinstance" and ((shape[0] == "class" and _last(chain(c_.args[1])) == shape[1]) or
+                                                 (is_seq and chain(c_.args[1]) == "tuple") or (shape[0] == "dict" and chain(c_.args[1]) == "dict")):
+                answers[id(c_)] = True
+            else:
+                answers = None
+                break
+        if answers is None:
+            continue
+        new = {}
+        for f in fields:
+            n_ = f"{v}_{f}"
+            while n_ in all_names:
+                n_ += "_"
+            all_names.add(n_)
+            new[f] = n_
+        plans.append((v, defs, loads, unpacks, key, new, fields, answers))
+    if not plans:
+        return False
+    def_of, unpack_of, load_of, const_of = {}, {}, {}, {}
+    for v, defs, loads, unpacks, key, new, fields, answers in plans:
+        const_of.update(answers)
+        for st, got in defs:
+            def_of[id(st)] = [ast.copy_location(ast.Assign([ast.Name(new[f], ast.Store())], e), st) for f, e in got]
+        for u in unpacks:
+            unpack_of[id(u)] = [ast.copy_location(ast.Assign([ast.Name(t.id, ast.Store())], ast.Name(new[f], ast.Load())), u)
+                                for t, f in zip(u.targets[0].elts, fields)]
+        for p_, k_ in loads:
+            load_of[id(p_)] = new[key[k_]]
+
+    class _Loads(ast.NodeTransformer):
+        def visit(self, n):
+            if id(n) in load_of:
+                return ast.copy_location(ast.Name(load_of[id(n)], ast.Load()), n)
+            if id(n) in const_of:
+                return ast.copy_location(ast.Constant(const_of[id(n)]), n)
+            return self.generic_visit(n)
+    _rewrite_blocks(node, lambda st: def_of.get(id(st)) or unpack_of.get(id(st)))
+    _Loads().generic_visit(node)
+    return True
+
+
+# --- operator / functools callables and eager pipelines made explicit.  `itemgetter(0)(p)` is `p[0]`, `methodcaller("cancel")(f)`
+#     is `f.cancel()`, `partial(g, a)(b)` is `g(a, b)`; `map(F, S)` yields `F(x) for x in S`; a comprehension / list(..) /
+#     deque(.., maxlen=0) evaluated as a statement of its own runs its element expression once per element, like a loop.
+def _last(c: str | None) -> str:
+    return (c or "").split(".")[-1]
+
+
+def _apply_callable(fi: FuncInfo, f: ast.AST, x: ast.expr) -> ast.expr:
+    """the expression `f(x)` with a callable built by operator / functools / lambda applied symbolically"""
+    g = strip_cast(resolve(fi, f))
+    if isinstance(g, ast.Call) and not any(isinstance(a, ast.Starred) for a in g.args) and all(k.arg is not None for k in g.keywords):
+        name = _last(chain(g.func))
+        if name == "itemgetter" and len(g.args) == 1 and not g.keywords and const_value(g.args[0]) is not NOCONST:
+            return ast.Subscript(x, clone(g.args[0]), ast.Load())
+        if name == "attrgetter" and len(g.args) == 1 and not g.keywords and isinstance(const_value(g.args[0]), str) and const_value(g.args[0]).isidentifier():
+            return ast.Attribute(x, const_value(g.args[0]), ast.Load())
+        if name == "methodcaller" and g.args and isinstance(const_value(g.args[0]), str) and const_value(g.args[0]).isidentifier():
+            return ast.Call(ast.Attribute(x, const_value(g.args[0]), ast.Load()), [clone(a) for a in g.args[1:]], [clone(k) for k in g.keywords])
+        if name == "partial" and g.args and all(_simple_value(a) for a in g.args) and all(_simple_value(k.value) for k in g.keywords):
+            return ast.Call(clone(g.args[0]), [clone(a) for a in g.args[1:]] + [x], [clone(k) for k in g.keywords])
+    if isinstance(g, ast.Lambda) and len(g.args.args) == 1 and not (g.args.defaults or g.args.vararg or g.args.kwarg or g.args.kwonlyargs or g.args.posonlyargs) \
+            and isinstance(x, ast.Name) and not any(isinstance(y, (ast.Lambda, ast.ListComp, ast.SetComp, ast.DictComp, ast.GeneratorExp, ast.NamedExpr))
+                                                    for y in ast.walk(g.body)):
+        return _Rename({}, {g.args.args[0].arg: x}).visit(clone(g.body))
+    return ast.Call(clone(f), [x], [])
+
+
+def _as_genexp(fi: FuncInfo, e: ast.AST, taken: set[str], eager: bool = False) -> ast.GeneratorExp | None:
+    """e as a generator expression: itself, `map(F, S)` as `(F(x) for x in S)`, and - where the caller consumes it completely
+    anyway (eager) - a list / set comprehension"""
+    e = strip_cast(e)
+    if isinstance(e, ast.GeneratorExp):
+        return e
+    if eager and isinstance(e, (ast.ListComp, ast.SetComp)):
+        return ast.copy_location(ast.GeneratorExp(e.elt, e.generators), e)
+    if isinstance(e, ast.Call) and chain(e.func) == "map" and len(e.args) == 2 and not e.keywords and not any(isinstance(a, ast.Starred) for a in e.args):
+        v = "item_mp"
+        while v in taken:
+            v += "_"
+        taken.add(v)
+        elt = _apply_callable(fi, e.args[0], ast.Name(v, ast.Load()))
+        g = ast.GeneratorExp(elt, [ast.comprehension(ast.Name(v, ast.Store()), e.args[1], [], 0)])
+        return ast.fix_missing_locations(ast.copy_location(g, e))
+    if isinstance(e, ast.Call) and _last(chain(e.func)) in ("filter", "filterfalse") and chain(e.func) in ("filter", "filterfalse", "itertools.filterfalse") \
+            and len(e.args) == 2 and not e.keywords and not any(isinstance(a, ast.Starred) for a in e.args):
+        # filter(F, S) is (x for x in S if F(x));  filterfalse(F, S) is (x for x in S if not F(x));  F None tests x itself
+        v = "item_ft"
+        while v in taken:
+            v += "_"
+        taken.add(v)
+        test = ast.Name(v, ast.Load()) if _is_none(e.args[0]) else _apply_callable(fi, e.args[0], ast.Name(v, ast.Load()))
+        if _last(chain(e.func)) == "filterfalse":
+            test = ast.UnaryOp(ast.Not(), test)
+        g = ast.GeneratorExp(ast.Name(v, ast.Load()), [ast.comprehension(ast.Name(v, ast.Store()), e.args[1], [test], 0)])
+        return ast.fix_missing_locations(ast.copy_location(g, e))
+    return None
+
+
+def _consumed_whole(e: ast.AST) -> ast.AST | None:
+    """the iterable that the expression statement `e` walks from its first to its last element, discarding what it builds"""
+    e = strip_cast(e)
+    if isinstance(e, (ast.ListComp, ast.SetComp)):
+        return e
+    if isinstance(e, ast.Call) and not any(isinstance(a, ast.Starred) for a in e.args):
+        name = _last(chain(e.func))
+        if name in ("list", "tuple", "set", "frozenset", "sorted") and chain(e.func) == name and len(e.args) == 1 and not e.keywords:
+            return e.args[0]
+        if name == "deque" and ((len(e.args) == 2 and not e.keywords and const_value(e.args[1]) == 0) or
+                                (len(e.args) == 1 and len(e.keywords) == 1 and e.keywords[0].arg == "maxlen" and const_value(e.keywords[0].value) == 0)):
+            return e.args[0]
+    return None
+
+
+def _fuse_filtered_snapshots(node: ast.AST) -> bool:
+    """`xs = [E for x in S if C]` (or list(..) / tuple(..) of such a generator) directly followed by the only use of xs, `for T in xs:`,
+    walks the selected elements in the same order; nothing runs between the selection and the loop, so for the rules (which
+    ask what holds for an element when the body runs) it is the loop over the generator itself."""
+    changed = False
+    loads: dict[str, int] = {}
+    stores_: dict[str, int] = {}
+    for x in ast.walk(node):
+        if isinstance(x, ast.Name):
+            d = loads if isinstance(x.ctx, ast.Load) else stores_
+            d[x.id] = d.get(x.id, 0) + 1
+
+    def block(stmts: list) -> None:
+        nonlocal changed
+        i = 0
+        while i + 1 < len(stmts):
+            a, b = stmts[i], stmts[i + 1]
+            v = a.targets[0].id if isinstance(a, ast.Assign) and len(a.targets) == 1 and isinstance(a.targets[0], ast.Name) else None
+            val = strip_cast(a.value) if v is not None else None
+            if isinstance(val, ast.Call) and chain(val.func) in ("list", "tuple") and len(val.args) == 1 and not val.keywords:
+                val = strip_cast(val.args[0])
+            if v is not None and isinstance(val, (ast.ListComp, ast.GeneratorExp)) and any(g.ifs for g in val.generators) \
+                    and isinstance(b, ast.For) and isinstance(strip_cast(b.iter), ast.Name) and strip_cast(b.iter).id == v \
+                    and loads.get(v) == 1 and stores_.get(v) == 1:
+                b.iter = ast.copy_location(ast.GeneratorExp(val.elt, val.generators), val)
+                del stmts[i]
+                changed = True
+                continue
+            i += 1
+        for st in stmts:
+            if isinstance(st, (ast.FunctionDef, ast.AsyncFunctionDef, ast.ClassDef)):
+                continue
+            for field in ("body", "orelse", "finalbody"):
+                blk = getattr(st, field, None)
+                if isinstance(blk, list) and blk and isinstance(blk[0], ast.stmt):
+                    block(blk)
+            for h in getattr(st, "handlers", []):
+                block(h.body)
+    block(node.body)
+    return changed
+
+
+def _suppressed(w: ast.With) -> list[ast.expr] | None:
+    """the exception types of `with suppress(E1, E2):` / `with contextlib.suppress(..):` (one item, nothing bound)"""
+    if len(w.items) != 1 or w.items[0].optional_vars is not None:
+        return None
+    c = w.items[0].context_expr
+    if isinstance(c, ast.Call) and chain(c.func) in ("suppress", "contextlib.suppress") and c.args and not c.keywords \
+            and not any(isinstance(a, ast.Starred) for a in c.args):
+        return list(c.args)
+    return None
+
+
+def _new_properties(fi: FuncInfo) -> dict[str, tuple[str, ast.expr]]:
+    """NEW read-only properties (not part of the reviewed code) whose body is one `return <expression over self>`, by attribute name -
+    only names that nothing else in the repository defines, so that `<x>.name` can only be that property:
+    name -> (its self parameter, the returned expression)"""
+    repo = _REPO[0]
+    if repo is None:
+        return {}
+    hit = repo.__dict__.get("_c10_props")
+    if hit is not None:
+        return hit
+    out: dict = {}
+    try:
+        from ..localnames import load_table
+        tables = load_table()
+    except Exception:  # noqa: BLE001
+        tables = {}
+    seen: dict[str, int] = {}
+    for k in repo.all_classes():
+        for name in list(k.methods) + list(k.attrs) + list(k.annotations):
+            seen[name] = seen.get(name, 0) + 1
+    for k in repo.all_classes():
+        known = tables.get(k.module.relpath) or {}
+        for name, m in k.methods.items():
+            if m.decorator_names() != ["property"] or f"{k.name}.{name}" in known or seen.get(name, 0) != 1 or len(m.params()) != 1:
+                continue
+            body = [x for x in m.node.body if not (isinstance(x, ast.Expr) and isinstance(x.value, ast.Constant) and isinstance(x.value.value, str))]
+            if len(body) == 1 and isinstance(body[0], ast.Return) and body[0].value is not None \
+                    and not any(isinstance(x, (ast.Await, ast.Yield, ast.YieldFrom, ast.NamedExpr, ast.Lambda)) for x in ast.walk(body[0].value)) \
+                    and not any(isinstance(st, ast.Attribute) and st.attr == name and isinstance(st.ctx, (ast.Store, ast.Del))
+                                for mod in repo.modules.values() for st in ast.walk(mod.tree)):
+                out[name] = (m.params()[0], body[0].value)
+    repo.__dict__["_c10_props"] = out
+    return out
+
+
+def _inline_properties(fi: FuncInfo, node: ast.AST) -> bool:
+    """`x.<new property>` -> the expression the property returns, with its self replaced by x (x a plain name, so nothing is
+    evaluated twice); names bound inside that expression (comprehension variables) are kept apart from the function's own"""
+    props = _new_properties(fi)
+    if not props:
+        return False
+    taken = _names(node) | {x.arg for x in ast.walk(node) if isinstance(x, ast.arg)}
+    changed = False
+
+    class _P(ast.NodeTransformer):
+        def visit_Attribute(self, n):
+            nonlocal changed
+            self.generic_visit(n)
+            if isinstance(n.ctx, ast.Load) and n.attr in props and isinstance(n.value, ast.Name):
+                me, expr = props[n.attr]
+                e = clone(expr)
+                bound = {x.id for x in ast.walk(e) if isinstance(x, ast.Name) and isinstance(x.ctx, ast.Store)}
+                mapping = {}
+                for b_ in bound:
+                    new_ = b_
+                    while new_ in taken:
+                        new_ += "_p"
+                    if new_ != b_:
+                        mapping[b_] = new_
+                        taken.add(new_)
+                changed = True
+                return ast.copy_location(_Rename(mapping, {me: n.value}).visit(e), n)
+            return n
+    _P().visit(node)
+    return changed
+
+
+def _fold_constant_tests(node: ast.AST) -> None:
+    """in the tests of if / while / conditional expressions: comparisons of two literals are replaced by their value and constant
+    operands of and / or are dropped (as a test, `True and X` is X) - left behind where a record's length / type became a literal"""
+    def fold(t: ast.expr) -> ast.expr:
+        if isinstance(t, ast.UnaryOp) and isinstance(t.op, ast.Not):
+            t.operand = fold(t.operand)
+            return ast.copy_location(ast.Constant(not t.operand.value), t) if isinstance(t.operand, ast.Constant) else t
+        if isinstance(t, ast.Compare) and len(t.ops) == 1 and isinstance(t.left, ast.Constant) and isinstance(t.comparators[0], ast.Constant) \
+                and isinstance(t.ops[0], (ast.Eq, ast.NotEq)) and type(t.left.value) is type(t.comparators[0].value):
+            same = t.left.value == t.comparators[0].value
+            return ast.copy_location(ast.Constant(same if isinstance(t.ops[0], ast.Eq) else not same), t)
+        if isinstance(t, ast.BoolOp):
+            vals = [fold(v) for v in t.values]
+            is_and = isinstance(t.op, ast.And)
+            out = []
+            for v in vals:
+                if isinstance(v, ast.Constant):
+                    if bool(v.value) is is_and:
+                        continue                       # neutral operand
+                    out.append(v)
+                    break                              # decides the test: nothing after it is evaluated
+                out.append(v)
+            if not out:
+                return ast.copy_location(ast.Constant(is_and), t)
+            if len(out) == 1:
+                return out[0]
+            if isinstance(out[-1], ast.Constant) and all(not expr_effects(v) for v in out[:-1]):
+                return ast.copy_location(ast.Constant(not is_and), t)
+            t.values = out
+            return t
+        return t
+
+    def expr_effects(e: ast.expr) -> bool:
+        return any(isinstance(x, (ast.Call, ast.Await, ast.NamedExpr, ast.Yield, ast.YieldFrom)) for x in ast.walk(e))
+    for x in ast.walk(node):
+        if isinstance(x, (ast.If, ast.While, ast.IfExp)):
+            x.test = fold(x.test)
+
+
+# --- dispatch tables made explicit.  `{K1: a, K2: b}.get(k, d)` with literal / Enum keys is `a if k == K1 else b if k == K2 else d`
+#     (for `D[k]` the last alternative stays `D[k]`: it raises the same KeyError); a statement that calls a local bound once to such
+#     a choice of callables runs the statement with the chosen callable: `if k == K1: a(x)` / `elif k == K2: b(x)` / ...  After
+#     that the callables are called directly, and new helpers among them are inlined like any extracted step.
+def _simple_value(e: ast.AST) -> bool:
+    """evaluating e has no effect and cannot fail in a way that matters: names, attribute chains, literals, lambdas"""
+    e = strip_cast(e)
+    if isinstance(e, (ast.Constant, ast.Lambda)):
+        return True
+    while isinstance(e, ast.Attribute):
+        e = e.value
+    return isinstance(e, ast.Name)
+
+
+def _choice_of(fi: FuncInfo, e: ast.AST) -> ast.expr | None:
+    """the conditional expression a lookup in a dict display with self-identifying keys stands for; None if e is no such lookup"""
+    e = strip_cast(e)
+    table, key, rest = None, None, None
+    if isinstance(e, ast.Subscript) and isinstance(e.ctx, ast.Load):
+        table, key, rest = strip_cast(resolve(fi, e.value)), e.slice, e
+    elif isinstance(e, ast.Call) and isinstance(e.func, ast.Attribute) and e.func.attr == "get" and 1 <= len(e.args) <= 2 and not e.keywords \
+            and not any(isinstance(a, ast.Starred) for a in e.args):
+        table, key = strip_cast(resolve(fi, e.func.value)), e.args[0]
+        rest = e.args[1] if len(e.args) == 2 else ast.Constant(None)
+    if not (isinstance(table, ast.Dict) and table.keys and all(k is not None for k in table.keys) and isinstance(strip_cast(key), ast.Name)):
+        return None
+    ks = [_kconst(fi, k) for k in table.keys]
+    if any(k is NOCONST for k in ks) or len({type(k) for k in ks}) != 1 or len(set(ks)) != len(ks) or isinstance(ks[0], (bool, float)):
+        return None
+    if not all(_simple_value(v) for v in table.values) or not (rest is e or _simple_value(rest)):
+        return None
+    out: ast.expr = clone(rest)
+    for k, v in reversed(list(zip(table.keys, table.values))):
+        out = ast.IfExp(ast.Compare(clone(strip_cast(key)), [ast.Eq()], [clone(k)]), clone(v), out)
+    return ast.fix_missing_locations(ast.copy_location(out, e))
+
+
+def _devirtualise(fi: FuncInfo, node: ast.AST) -> bool:
+    tmp = FuncInfo(fi.name, fi.qualname, node, fi.module, fi.cls)
+    changed = False
+
+    # A. every lookup in a literal dispatch table becomes the conditional expression it stands for
+    class _Lookups(ast.NodeTransformer):
+        def generic(self, n):
+            nonlocal changed
+            n = self.generic_visit(n)
+            c = _choice_of(tmp, n)
+            if c is not None:
+                changed = True
+                return c
+            return n
+        visit_Subscript = generic
+        visit_Call = generic
+
+        def visit_FunctionDef(self, n):
+            return n if n is not node else self.generic_visit(n)
+        visit_AsyncFunctionDef = visit_FunctionDef
+        visit_Lambda = visit_FunctionDef
+    _Lookups().visit(node)
+    if not changed and not any(isinstance(x, ast.IfExp) for x in walk_no_nested(node)):
+        return False
+    set_parents(node)
+    tmp = FuncInfo(fi.name, fi.qualname, node, fi.module, fi.cls)
+    params = set(tmp.params())
+
+    def known_object(v: ast.expr) -> bool:
+        """v is certainly an object that is not None and is truthy: a lambda, a method of the class taken from self"""
+        v = strip_cast(v)
+        return isinstance(v, ast.Lambda) or (isinstance(v, ast.Attribute) and isinstance(v.value, ast.Name) and v.value.id == "self"
+                                             and fi.cls is not None and fi.cls.lookup(v.attr) is not None)
+
+    def as_test(v: ast.expr, leaf) -> ast.expr | None:
+        """the truth of `leaf(<chosen alternative>)` as a test over the choice's own conditions"""
+        v = strip_cast(v)
+        if isinstance(v, ast.IfExp):
+            a, b = as_test(v.body, leaf), as_test(v.orelse, leaf)
+            if a is None or b is None:
+                return None
+            return ast.BoolOp(ast.Or(), [ast.BoolOp(ast.And(), [clone(v.test), a]), ast.BoolOp(ast.And(), [ast.UnaryOp(ast.Not(), clone(v.test)), b])])
+        r = leaf(v)
+        return None if r is None else ast.Constant(r)
+
+    def truthy(v):
+        return True if known_object(v) else (bool(v.value) if isinstance(v, ast.Constant) else None)
+
+    def not_none(v):
+        return True if known_object(v) else (v.value is not None if isinstance(v, ast.Constant) else None)
+
+    def test_of(t: ast.expr) -> ast.expr:
+        if isinstance(t, ast.UnaryOp) and isinstance(t.op, ast.Not):
+            t.operand = test_of(t.operand)
+            return t
+        if isinstance(t, ast.BoolOp):
+            t.values = [test_of(x) for x in t.values]
+            return t
+        r = None
+        if isinstance(strip_cast(t), ast.IfExp):
+            r = as_test(t, truthy)
+        elif isinstance(t, ast.Compare) and len(t.ops) == 1 and isinstance(t.ops[0], (ast.Is, ast.IsNot)) and _is_none(t.comparators[0]) \
+                and isinstance(strip_cast(t.left), ast.IfExp):
+            r = as_test(t.left, not_none)
+            if r is not None and isinstance(t.ops[0], ast.Is):
+                r = ast.UnaryOp(ast.Not(), r)
+        if r is None:
+            return t
+        nonlocal changed
+        changed = True
+        return ast.fix_missing_locations(ast.copy_location(r, t))
+    for x in list(walk_no_nested(node)):
+        if isinstance(x, (ast.If, ast.While)):
+            x.test = test_of(x.test)
+    _fold_constant_tests(node)
+    set_parents(node)
+    tmp = FuncInfo(fi.name, fi.qualname, node, fi.module, fi.cls)
+
+    def stable(t: ast.expr) -> bool:
+        # re-evaluating the test where the callable is used gives what it gave where the callable was chosen
+        for x in ast.walk(t):
+            if isinstance(x, (ast.Call, ast.Await, ast.NamedExpr, ast.Subscript)):
+                return False
+            if isinstance(x, ast.Attribute) and _kconst(tmp, x) is NOCONST and not (isinstance(parent(x), ast.Attribute)):
+                return False
+            if isinstance(x, ast.Name) and isinstance(x.ctx, ast.Load) and not (isinstance(parent(x), ast.Attribute) and _kconst(tmp, parent(x)) is not NOCONST):
+                d = local_defs(tmp, x.id)
+                if (x.id in params and d) or (x.id not in params and len(d) > 1):
+                    return False
+        return True
+
+    def fn(st):
+        val = st.value if isinstance(st, (ast.Expr, ast.Return)) or (isinstance(st, ast.Assign) and len(st.targets) == 1) else None
+        call = strip_cast(val) if val is not None else None
+        if not isinstance(call, ast.Call):
+            return None
+        choice, in_place = None, False
+        if isinstance(strip_cast(call.func), ast.IfExp):
+            choice, in_place = strip_cast(call.func), True          # chosen right where it is called
+        elif isinstance(call.func, ast.Name) and call.func.id not in params:
+            d = local_defs(tmp, call.func.id)
+            if len(d) == 1 and d[0][1] is not None and d[0][2] is None and isinstance(strip_cast(d[0][1]), ast.IfExp):
+                choice = strip_cast(d[0][1])
+        if choice is None:
+            return None
+        leaves = [0]
+
+        def ok(v) -> bool:
+            v = strip_cast(v)
+            if isinstance(v, ast.IfExp):
+                return (in_place or stable(v.test)) and not any(isinstance(x, (ast.Call, ast.Await, ast.NamedExpr)) for x in ast.walk(v.test)) \
+                    and ok(v.body) and ok(v.orelse)
+            leaves[0] += 1
+            return _simple_value(v)
+        if not ok(choice) or leaves[0] > 6:
+            return None
+
+        def tree(v: ast.expr) -> list:
+            v = strip_cast(v)
+            if isinstance(v, ast.IfExp):
+                return [ast.copy_location(ast.If(clone(v.test), tree(v.body), tree(v.orelse)), st)]
+            if _is_none(v):
+                return [ast.copy_location(ast.Raise(ast.Call(ast.Name("TypeError", ast.Load()), [], []), None), st)]
+            new_st = clone(st)
+            for x in ast.walk(new_st):
+                if isinstance(x, ast.Call) and norm(x.func) == norm(call.func):
+                    x.func = clone(v)
+                    break
+            return [new_st]
+        return tree(choice)
+    if _rewrite_blocks(node, fn):
+        changed = True
+    return changed
+
+
+def _desugar_matches(fi: FuncInfo, node: ast.AST) -> bool:
+    """`match <call>:` left by the load-time pass (it only rewrites matches on plain names / tuple displays): the subject is bound to a
+    fresh local first, then every case becomes the test Python makes for it - a fixed-length sequence pattern is `it is a sequence of
+    that length` plus the tests of its positions, the rest as in sa.normalize.  First matching case wins, no case = fall through."""
+    try:
+        from ..normalize import _named_fields, _pattern
+    except Exception:  # noqa: BLE001
+        return False
+    if not any(isinstance(x, ast.Match) for x in walk_no_nested(node)):
+        return False
+    fields = _named_fields(fi.module.tree)
+    taken = _names(node) | {x.arg for x in ast.walk(node) if isinstance(x, ast.arg)}
+    changed = False
+
+    def conv(pat, subj):
+        if isinstance(pat, ast.MatchSequence) and not any(isinstance(q, ast.MatchStar) for q in pat.patterns) and isinstance(subj, (ast.Name, ast.Subscript)):
+            conds = [ast.Call(ast.Name("_is_sequence", ast.Load()), [clone(subj)], []),
+                     ast.Compare(ast.Call(ast.Name("len", ast.Load()), [clone(subj)], []), [ast.Eq()], [ast.Constant(len(pat.patterns))])]
+            caps = []
+            for i, q in enumerate(pat.patterns):
+                r = conv(q, ast.Subscript(clone(subj), ast.Constant(i), ast.Load()))
+                if r is None:
+                    return None
+                if r[0] is not None:
+                    conds.append(r[0])
+                caps += r[1]
+            return ast.BoolOp(ast.And(), conds), caps
+        if isinstance(pat, ast.MatchAs) and pat.pattern is not None:
+            r = conv(pat.pattern, subj)
+            return None if r is None else (r[0], r[1] + ([(pat.name, clone(subj))] if pat.name else []))
+        if isinstance(pat, ast.MatchOr):
+            rs = [conv(q, subj) for q in pat.patterns]
+            if any(r is None or r[1] for r in rs):
+                return None
+            if any(r[0] is None for r in rs):
+                return None, []
+            return ast.BoolOp(ast.Or(), [r[0] for r in rs]), []
+        return _pattern(pat, subj, fields)
+
+    def fn(st):
+        nonlocal changed
+        if not isinstance(st, ast.Match):
+            return None
+        pre, subj = [], st.subject
+        if not isinstance(subj, ast.Name):
+            v = "match_subject"
+            while v in taken:
+                v += "_"
+            taken.add(v)
+            pre = [ast.copy_location(ast.Assign([ast.Name(v, ast.Store())], subj), st)]
+            subj = ast.Name(v, ast.Load())
+        arms = []
+        for c in st.cases:
+            r = conv(c.pattern, subj)
+            if r is None or (c.guard is not None and r[1]):
+                return None
+            cond, caps = r
+            if c.guard is not None:
+                cond = c.guard if cond is None else ast.BoolOp(ast.And(), [cond, c.guard])
+            arms.append((cond, [ast.copy_location(ast.Assign([ast.Name(k, ast.Store())], e), c.body[0]) for k, e in caps] + c.body))
+        chain_: list = []
+        for cond, body in reversed(arms):
+            chain_ = body if cond is None else [ast.copy_location(ast.If(cond, body, chain_), st)]
+        changed = True
+        return pre + chain_
+    for _ in range(3):
+        if not _rewrite_blocks(node, fn):
+            break
+    return changed
+
+
+def _inline_new_helpers(fi: FuncInfo, node: ast.AST) -> bool:
+    """Run the engine's own helper inlining (sa.normalize, the pass applied to every module at load time) once more on the private
+    copy `node`: after `map(self._helper, xs)` / `partial(..)` pipelines have been written as loops with a direct call, a NEW helper
+    that could not be inlined at load time (it was referenced as a value, not called) is an ordinary extracted step."""
+    try:
+        from ..localnames import load_table
+        from ..normalize import inline_new_helpers
+        table = load_table().get(fi.module.relpath)
+    except Exception:  # noqa: BLE001
+        return False
+    if not table:
+        return False
+    known = set(table)
+    cls = fi.cls.name if fi.cls is not None else None
+    wanted = False
+    for c in calls(node):
+        f = c.func
+        if isinstance(f, ast.Name) and f.id in fi.module.functions and f.id not in known:
+            wanted = True
+        elif isinstance(f, ast.Attribute) and isinstance(f.value, ast.Name) and cls is not None and f.value.id in ("self", "cls", cls) \
+                and f.attr in fi.cls.methods and f"{cls}.{f.attr}" not in known:
+            wanted = True
+    if not wanted:
+        return False
+    origin = node.__dict__.get("_c10_origin", fi.node)
+    body: list = [clone(g.node) for g in fi.module.functions.values() if g.name not in known and g.node is not origin]
+    if cls is not None:
+        members = [clone(m.node) for m in fi.cls.methods.values() if f"{cls}.{m.name}" not in known and m.node is not origin]
+        body.append(ast.ClassDef(cls, [], [], members + [node], []))
+    else:
+        body.append(node)
+    mod = ast.fix_missing_locations(ast.Module(body, []))
+    try:
+        return inline_new_helpers(mod, known, set()) > 0
+    except Exception:  # noqa: BLE001
+        return False
+
+
 def _view(ctx: Ctx, fi: FuncInfo) -> FuncInfo:
-    """fi, with every `for` over a filtered generator expression or over a call of a generator helper expanded in place"""
+    """fi as the rules read it - a private copy on which only behaviour-preserving rewrites are made: `with suppress(E)` written as
+    try / except E: pass; every `for` over a filtered generator expression / map / filter pipeline or over a call of a generator
+    helper expanded in place; every eagerly consumed comprehension statement written as the loop it runs; NEW helpers that became
+    directly called by that inlined; every record-holding local replaced by one local per field."""
+    _use(ctx)
     store = ctx.__dict__.setdefault("_c10_views", {})
     hit = store.get(id(fi.node))
     if hit is not None and hit[0] is fi.node:
         return hit[1]
     view = fi
-    if any(isinstance(x, ast.For) and isinstance(strip_cast(x.iter), (ast.GeneratorExp, ast.Call)) for x in walk_no_nested(fi.node)):
-        node = clone(fi.node)
-        changed = False
-        for _ in range(4):
-            set_parents(node)
-            tmp = FuncInfo(fi.name, fi.qualname, node, fi.module, fi.cls)
+    try:
+        view = _build_view(ctx, fi)
+    except AnalysisError:
+        raise
+    except (AttributeError, TypeError, ValueError, KeyError, IndexError, RecursionError) as e:
+        ctx.note(f"view of {fi.qualname} not built ({type(e).__name__}: {e}); the rules read the function as written")
+    store[id(fi.node)] = (fi.node, view)
+    store[id(view.node)] = (view.node, view)
+    return view
 
-            def fn(st, tmp=tmp, node=node):
-                if not isinstance(st, ast.For) or st.orelse:
-                    return None
-                it = strip_cast(st.iter)
-                if isinstance(it, ast.GeneratorExp) and any(g.ifs for g in it.generators):
-                    return _expand_genexp(node, st, it)
-                if isinstance(it, ast.Call):
-                    t, supported = _generator_target(ctx, tmp, it)
-                    r = _expand_gencall(node, st, it, t) if supported else None
-                    if t is not None and r is None:
-                        raise AnalysisError(f"undecided: {fi.qualname} iterates the generator helper {t.qualname} in a shape that cannot be expanded "
-                                            "(several yield points, try/with/return in the generator, break/continue in the loop body)")
-                    return r
-                return None
-            if not _rewrite_blocks(node, fn):
-                break
+
+def _build_view(ctx: Ctx, fi: FuncInfo) -> FuncInfo:
+    view = fi
+    node = clone(fi.node)
+    set_parents(node)
+    node.__dict__["_c10_origin"] = fi.node
+    changed_any = False
+    for round_ in range(3):
+        tmp = FuncInfo(fi.name, fi.qualname, node, fi.module, fi.cls)
+        changed = False
+        if _inline_properties(fi, node):
             changed = True
-        if changed:
             ast.fix_missing_locations(node)
             set_parents(node)
-            view = FuncInfo(fi.name, fi.qualname, node, fi.module, fi.cls)
-    store[id(fi.node)] = (fi.node, view)
+        if _devirtualise(fi, node):
+            changed = True
+            ast.fix_missing_locations(node)
+            set_parents(node)
+            if _inline_new_helpers(fi, node):
+                ast.fix_missing_locations(node)
+                set_parents(node)
+        if _desugar_matches(fi, node):
+            changed = True
+            ast.fix_missing_locations(node)
+            set_parents(node)
+            if _inline_new_helpers(fi, node):
+                ast.fix_missing_locations(node)
+                set_parents(node)
+        if _may_hold_record(tmp) and _scalarise_records(fi, node):
+            changed = True
+            _fold_constant_tests(node)
+            ast.fix_missing_locations(node)
+            set_parents(node)
+        if any((isinstance(x, ast.For) and isinstance(strip_cast(x.iter), (ast.GeneratorExp, ast.Call, ast.Name))) or
+               (isinstance(x, ast.Expr) and _consumed_whole(x.value) is not None) or (isinstance(x, ast.With) and _suppressed(x) is not None)
+               for x in walk_no_nested(node)):
+            expanded = _fuse_filtered_snapshots(node)
+            for _ in range(4):
+                set_parents(node)
+                tmp = FuncInfo(fi.name, fi.qualname, node, fi.module, fi.cls)
+                taken = _names(node) | {x.arg for x in ast.walk(node) if isinstance(x, ast.arg)}
+
+                def fn(st, tmp=tmp, node=node, taken=taken):
+                    if isinstance(st, ast.With) and _suppressed(st) is not None:
+                        # `with suppress(E): BODY` is `try: BODY` / `except E: pass` (contextlib.suppress does nothing else)
+                        types = _suppressed(st)
+                        h = ast.ExceptHandler(types[0] if len(types) == 1 else ast.Tuple(list(types), ast.Load()), None, [ast.copy_location(ast.Pass(), st)])
+                        return [ast.copy_location(ast.Try(st.body, [ast.copy_location(h, st)], [], []), st)]
+                    if isinstance(st, ast.Expr) and _consumed_whole(st.value) is not None:
+                        g = _as_genexp(tmp, _consumed_whole(st.value), taken, eager=True)
+                        if g is None:
+                            return None
+                        v = "elt_cx"
+                        while v in taken:
+                            v += "_"
+                        taken.add(v)
+                        loop = ast.copy_location(ast.For(ast.Name(v, ast.Store()), g, [ast.copy_location(ast.Pass(), st)], [], None), st)
+                        return _expand_genexp(node, loop, g)
+                    if not isinstance(st, ast.For) or st.orelse:
+                        return None
+                    it = strip_cast(st.iter)
+                    if isinstance(it, ast.Call) and _last(chain(it.func)) in ("map", "filter", "filterfalse"):
+                        g = _as_genexp(tmp, it, taken)
+                        return _expand_genexp(node, st, g) if g is not None else None
+                    if isinstance(it, ast.GeneratorExp) and any(g.ifs for g in it.generators):
+                        return _expand_genexp(node, st, it)
+                    if isinstance(it, ast.Call):
+                        t, supported = _generator_target(ctx, tmp, it)
+                        r = _expand_gencall(node, st, it, t) if supported else None
+                        if t is not None and r is None:
+                            raise AnalysisError(f"undecided: {fi.qualname} iterates the generator helper {t.qualname} in a shape that cannot be expanded "
+                                                "(several yield points, try/with/return in the generator, break/continue in the loop body)")
+                        return r
+                    return None
+                if not _rewrite_blocks(node, fn):
+                    break
+                expanded = True
+            if expanded:
+                changed = True
+                ast.fix_missing_locations(node)
+                set_parents(node)
+                if _inline_new_helpers(fi, node):
+                    ast.fix_missing_locations(node)
+                    set_parents(node)
+        if not changed:
+            break
+        changed_any = True
+    if changed_any:
+        ast.fix_missing_locations(node)
+        set_parents(node)
+        node.__dict__["_c10_origin"] = fi.node
+        view = FuncInfo(fi.name, fi.qualname, node, fi.module, fi.cls)
     return view
+
+
+def _may_hold_record(fi: FuncInfo) -> bool:
+    """some local of fi is bound to a display / constructor call (cheap test before the function is copied)"""
+    for x in walk_no_nested(fi.node):
+        v = None
+        if isinstance(x, ast.Assign) and len(x.targets) == 1 and isinstance(x.targets[0], ast.Name):
+            v = strip_cast(x.value)
+        elif isinstance(x, ast.AnnAssign) and isinstance(x.target, ast.Name) and x.value is not None:
+            v = strip_cast(x.value)
+        if isinstance(v, (ast.Tuple, ast.Dict)) or (isinstance(v, ast.Call) and _record_fields(fi.module, _class_of(fi.module, v.func)) is not None):
+            return True
+    return False
 
 
 def _impl(ctx: Ctx, name: str) -> FuncInfo:
@@ -827,7 +2002,7 @@ def _claimed_vars(ctx: Ctx, fi: FuncInfo, site: ast.AST, key: ast.AST | None, ho
             read = v.slice
         elif isinstance(v, ast.Call) and isinstance(v.func, ast.Attribute) and v.func.attr == "get" and _is_table(fi, v.func.value) and len(v.args) == 1:
             read = v.args[0]
-        if read is None or not same_resolved(fi, read, key) or len(local_defs(fi, n.targets[0].id)) != 1:
+        if read is None or not _same_val(fi, read, key) or len(local_defs(fi, n.targets[0].id)) != 1:
             continue
         dn = cfg.nodes_for(n)
         if dn and all(cfg.must_complete(sn, dn) for sn in cfg.nodes_for(site)):
@@ -877,13 +2052,24 @@ def _pop_via_helper(ctx: Ctx, fi: FuncInfo) -> bool:
                 and mc.exit not in mc.reach(cut_nodes=[n for r in rets for n in mc.nodes_for(r)])
             ctx.check(in_helper or by_caller, "pop-cancels", m, p, "after _identifiers.pop(id) every normal path cancels that cache's timeout task",
                       "a claimed request keeps its timeout task: the timeout fires after the response was handled")
-            raises = (how == "del" or (len(p.args) == 1 and not p.keywords)) and _catching_handler(p) is None and _catching_handler(c) is None
+            raises = (how == "del" or (len(p.args) == 1 and not p.keywords)) and not _swallowed(ctx, m, p) and not _swallowed(ctx, fi, c)
             ctx.check(key_ok(key) and raises, "pop-cancels", m, p,
                       "pop removes exactly _create_identifier(number, prefix) and raises KeyError when absent",
                       "pop uses a different identifier or silently tolerates a missing cache (a late response would find a default)")
             back = returned_directly or any(isinstance(r, ast.Return) and r.value is not None and _is_var(fi, r.value, outer) for r in walk_no_nested(fi.node))
             ctx.check(gives and back, "pop-cancels", m, p, "pop returns the removed cache", "pop does not return the removed cache")
     return found
+
+
+def _swallowed(ctx: Ctx, fi: FuncInfo, site: ast.AST) -> bool:
+    """a KeyError raised at `site` is caught inside fi by a handler from which the function can still end normally (a handler that
+    only re-raises - `except KeyError: raise` / `raise KeyError(..) from None` - lets the caller see it)"""
+    h = _catching_handler(site)
+    if h is None:
+        return False
+    cfg = ctx.cfg(fi)
+    hn = [n for n in cfg.nodes_for(h) if n.kind == "handler"]
+    return not hn or cfg.exit in cfg.reach(hn)
 
 
 def rule_pop(ctx: Ctx) -> None:
@@ -903,12 +2089,31 @@ def rule_pop(ctx: Ctx) -> None:
         # a missing identifier must raise KeyError: one-argument dict.pop and `del` do; pop with a default only below a
         # test that the key is registered
         raises = how == "del" or (len(p.args) == 1 and not p.keywords) or \
-            any(_present_fact(fi, f, lambda e: key is not None and same_resolved(fi, e, key)) for f in _facts(fi, cfg, p))
+            any(_present_fact(fi, f, lambda e: key is not None and _same_val(fi, e, key)) for f in _facts(fi, cfg, p))
+        raises = raises and not _swallowed(ctx, fi, p)
         ctx.check(_ident_call_ok(fi, key, fi.params()[2], fi.params()[1]) and raises, "pop-cancels", fi, p,
                   "pop removes exactly _create_identifier(number, prefix) and raises KeyError when absent",
                   "pop uses a different identifier or silently tolerates a missing cache (a late response would find a default)")
         rets = [r for r in walk_no_nested(fi.node) if isinstance(r, ast.Return) and r.value is not None and any(_is_var(fi, r.value, v) for v in vars_)]
         ctx.check(bool(rets), "pop-cancels", fi, p, "pop returns the removed cache", "pop does not return the removed cache")
+
+
+def _scheduled(fi: FuncInfo, c: ast.Call) -> tuple[ast.AST, list[ast.expr], dict[str, ast.expr]] | None:
+    """What `register_task(name, task, *args, delay=.., **kwargs)` will call when the delay is over: (callable, positional arguments,
+    keyword arguments) - for a plain callable with trailing arguments, for `partial(f, a, ..)` and for `lambda: f(a, ..)`."""
+    t = arg(c, 1, "task")
+    if t is None or any(isinstance(a, ast.Starred) for a in c.args) or any(k.arg is None for k in c.keywords):
+        return None
+    pos = list(c.args[2:])
+    kw = {k.arg: k.value for k in c.keywords if k.arg not in ("name", "task", "delay", "interval", "ignore")}
+    t = strip_cast(resolve(fi, t))
+    if isinstance(t, ast.Call) and _last(chain(t.func)) == "partial" and t.args and not any(isinstance(a, ast.Starred) for a in t.args) \
+            and all(k.arg is not None for k in t.keywords):
+        return t.args[0], list(t.args[1:]) + pos, {**{k.arg: k.value for k in t.keywords}, **kw}
+    if isinstance(t, ast.Lambda) and not pos and not kw and not (t.args.args or t.args.posonlyargs or t.args.vararg or t.args.kwonlyargs or t.args.kwarg) \
+            and isinstance(t.body, ast.Call) and not any(isinstance(a, ast.Starred) for a in t.body.args) and all(k.arg is not None for k in t.body.keywords):
+        return t.body.func, list(t.body.args), {k.arg: k.value for k in t.body.keywords}
+    return t, pos, kw
 
 
 def _timeout_binding(ctx: Ctx, fi: FuncInfo) -> tuple[str, dict[str, tuple[FuncInfo, ast.AST, str]]]:
@@ -921,11 +2126,11 @@ def _timeout_binding(ctx: Ctx, fi: FuncInfo) -> tuple[str, dict[str, tuple[FuncI
     except AnalysisError:
         return ps[0], {}
     for c in calls(af, "self.register_task"):
-        t = arg(c, 1, "task")
-        if t is None or rchain(af, t) != "self._on_timeout" or any(isinstance(a, ast.Starred) for a in c.args):
+        sch = _scheduled(af, c)
+        if sch is None or rchain(af, sch[0]) != "self._on_timeout":
             continue
-        extra = list(c.args[2:])
-        named = {k.arg: k.value for k in c.keywords if k.arg in ps}
+        extra = sch[1]
+        named = {k: v for k, v in sch[2].items() if k in ps}
         bound = dict(zip(ps, extra)) | named
         q = next((k for k, v in bound.items() if _is_var(af, v, acache)), None)
         if q is not None:
@@ -969,9 +2174,13 @@ def _unregister_scan(ctx: Ctx, fi: FuncInfo, cache: str, depth: int = 2, handed:
             if sub["removals"] and ctx.cfg(m).exit not in sub["registered"]:
                 done += cfg.nodes_for(c)
 
+    probes = _probe_handlers(fi, is_key)
+
     def absent_edge(a, b, lab) -> bool:
         # leaving a test with the outcome "this identifier is not registered"
         if lab == "exc" and a in absent_exc:
+            return True
+        if b.kind == "handler" and any(b.ast is h for h in probes):
             return True
         return a.kind == "cond" and lab in (True, False) and (_absent_fact(fi, fact_of(a.ast, lab), is_key)
                                                               or _has_fact(fi, fact_of(a.ast, lab), "self", f"{cache}.prefix", f"{cache}.number"))
@@ -1002,7 +2211,14 @@ def rule_on_timeout(ctx: Ctx) -> None:
         fs = _facts(fi, cfg, s)
         base = alts[0]
         one_future = all(_same_value(fi, a, base) for a in alts)
-        ok = one_future and any(_done_fact(fi, f, base) for f in fs)
+        # `not future.done()` before the call, or the EAFP spelling of the same test: completing a done (or cancelled) future raises
+        # InvalidStateError and changes nothing, and that error is swallowed right there
+        # (the try has to sit inside the loop that hands out the futures: swallowed around the whole loop, the first done future would
+        # end the traversal)
+        h = _catching_handler(s, ("InvalidStateError",))
+        binders = _site_kind(fi, base, {cache: "cache"})[1]
+        eafp = h is not None and bool(binders) and any(a is binders[0] for a in ancestors(h))
+        ok = one_future and (any(_done_fact(fi, f, base) for f in fs) or eafp)
         un = [n for u in ucalls for n in cfg.nodes_for(u)]
         after = all(cfg.must_complete(sn, un) for sn in cfg.nodes_for(s))
         ctx.check(ok and after, "timeout-unregisters-first", fi, s, "managed future completed only if not done, after the callback",
@@ -1012,9 +2228,25 @@ def rule_on_timeout(ctx: Ctx) -> None:
     ctx.check(visited, "timeout-unregisters-first", fi, fi.node, "every managed future is visited", "not all futures tied to the cache are completed on timeout")
 
 
+def _canon(fi: FuncInfo, e: ast.AST, depth: int = 3) -> str:
+    """text of e with single-assignment aliases followed, a name unpacked from a plain local written as that local's component
+    (`future, value = entry` makes `future` the same as `entry[0]`)"""
+    e = strip_cast(resolve(fi, e))
+    if isinstance(e, ast.Name) and depth > 0 and e.id not in fi.params():
+        d = local_defs(fi, e.id)
+        if len(d) == 1 and d[0][1] is not None and d[0][2] is not None and isinstance(strip_cast(d[0][1]), ast.Name) \
+                and isinstance(d[0][0], ast.Assign) and not any(isinstance(x, ast.Starred) for t in d[0][0].targets for x in ast.walk(t)):
+            return f"{_canon(fi, d[0][1], depth - 1)}[{d[0][2]}]"
+    if isinstance(e, ast.Subscript) and isinstance(const_value(e.slice), int) and not isinstance(const_value(e.slice), bool) and depth > 0:
+        return f"{_canon(fi, e.value, depth - 1)}[{const_value(e.slice)}]"
+    if isinstance(e, ast.Attribute) and depth > 0:
+        return f"{_canon(fi, e.value, depth - 1)}.{e.attr}"
+    return norm(e)
+
+
 def _same_value(fi: FuncInfo, a: ast.AST, b: ast.AST) -> bool:
-    """same expression after following single-assignment aliases (`future, value = entry_f, entry_v`)"""
-    return norm(a) == norm(b) or norm(resolve(fi, a)) == norm(resolve(fi, b))
+    """same expression after following single-assignment aliases (`future, value = entry_f, entry_v`) and unpackings"""
+    return norm(a) == norm(b) or norm(resolve(fi, a)) == norm(resolve(fi, b)) or _canon(fi, a) == _canon(fi, b)
 
 
 def _done_fact(fi: FuncInfo, f: Fact, fut: ast.AST) -> bool:
@@ -1065,14 +2297,84 @@ def _receiver(c: ast.Call, a: ast.Attribute) -> ast.AST:
     return a.value
 
 
+def _method_uses(fi: FuncInfo, c: ast.Call) -> list[tuple[str, ast.AST, int]]:
+    """(method name, the object it is invoked on, number of further positional arguments) for every method the call may invoke:
+    `obj.m(..)`, the unbound `Future.m(obj, ..)`, `methodcaller("m", ..)(obj)`, and the same through a local alias, a conditional
+    expression or a dispatch table"""
+    out = []
+    for a in _callee_alts(fi, c.func):
+        if isinstance(a, ast.Attribute):
+            r = _receiver(c, a)
+            out.append((a.attr, r, len(c.args) - (0 if r is a.value else 1)))
+        elif isinstance(a, ast.Call) and _last(chain(a.func)) == "methodcaller" and a.args and not isinstance(a.args[0], ast.Starred) \
+                and len(c.args) == 1 and not c.keywords and not isinstance(c.args[0], ast.Starred):
+            names = [const_value(x) for x in _value_leaves(fi, a.args[0])]
+            if names and all(isinstance(n, str) for n in names):
+                out += [(n, c.args[0], len(a.args) - 1) for n in names]
+    return out
+
+
 def _completion_sites(fi: FuncInfo) -> list[tuple[ast.Call, list[ast.AST]]]:
     """calls that complete a future: (call, the future of every `set_result` / `set_exception` method the call may invoke)"""
     out = []
     for c in calls(fi):
-        alts = [a for a in _callee_alts(fi, c.func) if isinstance(a, ast.Attribute) and a.attr in ("set_result", "set_exception")]
+        alts = [r for m, r, _ in _method_uses(fi, c) if m in ("set_result", "set_exception")]
         if alts:
-            out.append((c, [_receiver(c, a) for a in alts]))
+            out.append((c, alts))
     return out
+
+
+def _cancel_sites(fi: FuncInfo) -> list[tuple[ast.Call, ast.AST]]:
+    """calls that cancel a future: (call, the future), whatever the spelling of the call"""
+    return [(c, r) for c in calls(fi) for m, r, n in _method_uses(fi, c) if m == "cancel" and n == 0]
+
+
+def _noop_edge(fi: FuncInfo, f: Fact, fut: ast.AST) -> bool:
+    """the outcome f of a test says that cancelling `fut` would do nothing: it is done / cancelled already, or there is no future"""
+    l = resolve(fi, f.left)
+    if f.op == "truthy" and f.pos and isinstance(l, ast.Call) and isinstance(l.func, ast.Attribute) and l.func.attr in ("done", "cancelled") \
+            and not l.args and _same_value(fi, l.func.value, fut):
+        return True
+    if f.op == "is" and f.pos and _is_none(f.right) and _same_value(fi, f.left, fut):
+        return True
+    return f.op == "truthy" and not f.pos and _same_value(fi, f.left, fut)
+
+
+def _nonempty_guard(fi: FuncInfo, f: Fact, loops: list[ast.AST]) -> bool:
+    """the condition only skips a traversal that would visit nothing: `if <seq>:` / `if len(<seq>):` / `if len(<seq>) > 0:` about the
+    very sequence one of the loops walks"""
+    seqs = [l.iter for l in loops if isinstance(l, (ast.For, ast.AsyncFor))]
+    e = f.left
+    if f.op == "lt" and f.pos and const_value(f.left) == 0:            # 0 < len(seq)
+        e = f.right
+    elif f.op == "eq" and not f.pos and const_value(f.right) == 0:     # len(seq) != 0
+        e = f.left
+    elif not (f.op == "truthy" and f.pos):
+        return False
+    e = strip_cast(e)
+    if isinstance(e, ast.Call) and chain(e.func) == "len" and len(e.args) == 1:
+        e = e.args[0]
+    return any(_same_value(fi, e, q) for q in seqs)
+
+
+def _cancels_each(ctx: Ctx, fi: FuncInfo, c: ast.Call, fut: ast.AST, loops: list[ast.AST], ignore=()) -> bool:
+    """Inside the loop that hands out the futures, no iteration gets back to the loop head without having passed the cancel call
+    c (or another cancel of the same future) - except by a test outcome that says the future is done already.  Decided on the
+    CFG, so it holds for compound guards, early `continue`s and nested ifs alike.  Where the innermost binder is not a loop
+    statement (a comprehension inside a larger expression) the conditions on the way to the call are judged instead."""
+    cfg = ctx.cfg(fi)
+    inner = loops[0] if loops else None
+    if not isinstance(inner, (ast.For, ast.AsyncFor)):
+        guards = [f for f in facts_at(cfg, c) if not any(f.atom is x for x in ignore)]
+        return _only_done_guards(fi, guards, fut)
+    heads = [n for n in cfg.nodes_for(inner) if n.kind == "loop"]
+    same = [n for c2, r2 in _cancel_sites(fi) if _same_value(fi, r2, fut) and any(a is inner for a in ancestors(c2)) for n in cfg.nodes_for(c2)]
+    starts = [v for h in heads for v, lab in h.succ if lab is True]
+
+    def skip(u, v, lab) -> bool:
+        return u.kind == "cond" and lab in (True, False) and u.ast is not None and _noop_edge(fi, fact_of(u.ast, lab), fut)
+    r = cfg.reach(starts, cut_nodes=same, cut_edge=skip, follow_exc=False)
+    return bool(heads) and bool(same) and not any(h in r for h in heads)
 
 
 def _delay_leaves(ctx: Ctx, fi: FuncInfo, e: ast.AST, bind: dict[str, str], depth: int = 3) -> list[str]:
@@ -1087,6 +2389,19 @@ def _delay_leaves(ctx: Ctx, fi: FuncInfo, e: ast.AST, bind: dict[str, str], dept
         for _, v, idx in local_defs(fi, e.id):
             out += _delay_leaves(ctx, fi, v, bind, depth - 1) if v is not None and idx is None else ["?"]
         return out or [e.id]
+    # a value picked from a dict / tuple display (dispatch table): any of its values
+    table = None
+    if isinstance(e, ast.Subscript):
+        table = strip_cast(resolve(fi, e.value))
+    elif isinstance(e, ast.Call) and isinstance(e.func, ast.Attribute) and e.func.attr == "get" and 1 <= len(e.args) <= 2 and not e.keywords:
+        table = strip_cast(resolve(fi, e.func.value))
+        if isinstance(table, ast.Dict) and all(k is not None for k in table.keys):
+            return [x for v in [*table.values, *(e.args[1:] or [ast.Constant(None)])] for x in _delay_leaves(ctx, fi, v, bind, depth - 1)]
+        table = None
+    if isinstance(table, ast.Dict) and table.values and all(k is not None for k in table.keys):
+        return [x for v in table.values for x in _delay_leaves(ctx, fi, v, bind, depth - 1)]
+    if isinstance(table, (ast.Tuple, ast.List)) and table.elts and not any(isinstance(x, ast.Starred) for x in table.elts):
+        return [x for v in table.elts for x in _delay_leaves(ctx, fi, v, bind, depth - 1)]
     if isinstance(e, ast.Call) and chain(e.func) is not None and chain(e.func).count(".") <= 1 and ctx.repo.resolve_call(fi, e):
         # a helper (method, static method or module function) that selects the delay: its return values, with parameters
         # bound to our arguments
@@ -1118,8 +2433,41 @@ def _subst_expr(e: ast.AST, bind: dict[str, str]) -> str:
     return norm(e)
 
 
+def _lock_manager(e: ast.AST) -> bool:
+    """e is `self.<m>()` for a @contextmanager method of RequestCache whose one yield sits inside `with self.lock:` (the body of the
+    caller's with-statement then runs with the lock held, and the lock is released when it is left)"""
+    repo = _REPO[0]
+    if not (repo is not None and isinstance(e, ast.Call) and not e.args and not e.keywords and (chain(e.func) or "").startswith("self.") and (chain(e.func) or "").count(".") == 1):
+        return False
+    k = repo.try_cls("RequestCache", RC)
+    m = k.lookup(e.func.attr) if k is not None else None
+    if m is None or not any(_last(d) == "contextmanager" for d in m.decorator_names()):
+        return False
+    ys = [x for x in walk_no_nested(m.node) if isinstance(x, (ast.Yield, ast.YieldFrom))]
+    return len(ys) == 1 and isinstance(ys[0], ast.Yield) and any(
+        isinstance(a, ast.With) and any(chain(i.context_expr) == "self.lock" for i in a.items) for a in ancestors(ys[0])) \
+        and not any(isinstance(a, (ast.For, ast.While, ast.AsyncFor)) for a in ancestors(ys[0]))
+
+
 def _holds_lock(n: ast.AST) -> bool:
-    return any(isinstance(a, (ast.With, ast.AsyncWith)) and any(chain(i.context_expr) == "self.lock" for i in a.items) for a in ancestors(n))
+    """n runs with self.lock held: inside `with self.lock:`, or inside the try of `self.lock.acquire()` / `try: .. finally: self.lock.release()`"""
+    cur = n
+    for a in ancestors(n):
+        if isinstance(a, (ast.With, ast.AsyncWith)) and any(chain(i.context_expr) == "self.lock" or _lock_manager(i.context_expr) for i in a.items):
+            return True
+        if isinstance(a, ast.Try) and any(cur is b for b in a.body) and any(
+                isinstance(x, ast.Expr) and isinstance(x.value, ast.Call) and chain(x.value.func) == "self.lock.release" for x in a.finalbody):
+            blk = next((getattr(parent(a), f) for f in ("body", "orelse", "finalbody") if isinstance(getattr(parent(a), f, None), list)
+                        and any(x is a for x in getattr(parent(a), f))), None) if parent(a) is not None else None
+            i = next((k for k, x in enumerate(blk) if x is a), 0) if blk else 0
+            prev = blk[i - 1] if blk and i > 0 else None
+            if isinstance(prev, ast.Expr) and isinstance(prev.value, ast.Call) and chain(prev.value.func) == "self.lock.acquire" \
+                    and not prev.value.args and not prev.value.keywords:
+                return True
+        if isinstance(a, (ast.FunctionDef, ast.AsyncFunctionDef, ast.Lambda)):
+            return False
+        cur = a
+    return False
 
 
 def _add_body(ctx: Ctx) -> tuple[FuncInfo, str, bool]:
@@ -1165,20 +2513,41 @@ def rule_add(ctx: Ctx) -> None:
     stores_ = _table_stores(fi)
     ctx.anchor(stores_, "_identifiers[...] = cache in add")
     sts = [st for st, _, _ in stores_]
+
+    def kept_fact(f: Fact, sd: ast.Call) -> bool:
+        # `<table>.setdefault(id, cache) is cache`: the entry now in the table is the offered cache (it was free, and is stored)
+        if not (f.op == "is" and f.pos):
+            return False
+        return any(strip_cast(resolve(fi, a)) is sd and _is_var(fi, b, cache) for a, b in ((f.left, f.right), (f.right, f.left)))
+    setdefaults = [st for st in sts if isinstance(st, ast.Call) and isinstance(st.func, ast.Attribute) and st.func.attr == "setdefault"]
+
+    def stored_edge(u, v, lab) -> bool:
+        """leaving a statement with the cache stored: the normal way out of a store; for setdefault (which never replaces an entry)
+        the outcome `result is cache` of a test of its result"""
+        if lab == "exc":
+            return False
+        if u.kind == "cond" and lab in (True, False) and u.ast is not None and any(kept_fact(fact_of(u.ast, lab), sd) for sd in setdefaults):
+            return True
+        return any(u in cfg.nodes_for(st) for st in sts if st not in setdefaults)
+    stored_starts = [v for n in cfg.nodes for v, lab in n.succ if stored_edge(n, v, lab)]
     for st, key, value in stores_:
         fs = _facts(fi, cfg, st)
         not_shut = any(shut(f, False) for f in fs)
-        free = any(_absent_fact(fi, f, lambda e: same_resolved(fi, e, key)) or _has_fact(fi, f, "self", f"{cache}.prefix", f"{cache}.number") for f in fs)
+        free = any(_absent_fact(fi, f, lambda e: _same_val(fi, e, key)) or _has_fact(fi, f, "self", f"{cache}.prefix", f"{cache}.number") for f in fs) \
+            or _absent_on_every_path(ctx, fi, st, lambda e: _same_val(fi, e, key))
+        if st in setdefaults and not free:
+            # setdefault keeps a live entry; what has to be shown instead is that add goes on only when its own cache is the entry
+            free = any(n.kind == "cond" and lab in (True, False) and kept_fact(fact_of(n.ast, lab), st) for n in cfg.nodes for _, lab in n.succ)
         ident = _ident_call_ok(fi, key, f"{cache}.number", f"{cache}.prefix")
         ctx.check(not_shut and free and locked(st) and ident and _is_var(fi, value, cache), "add-gates", fi, st,
                   "store dominated by not _shutdown and identifier not in _identifiers, under the lock, keyed by _create_identifier(number, prefix)",
                   f"a cache can be added after shutdown / over a live identifier / outside the lock (not_shutdown={not_shut} free={free} locked={locked(st)} ident={ident})",
                   [str(f) for f in fs])
-        regs = [c for c in calls(fi, "self.register_task") if _is_var(fi, arg(c, 0, "name"), cache) and arg(c, 1, "task") is not None
-                and rchain(fi, arg(c, 1, "task")) == "self._on_timeout" and arg(c, None, "delay") is not None
-                and any(_is_var(fi, a, cache) for a in [*c.args[2:], *[k.value for k in c.keywords if k.arg != "delay"]])]
+        regs = [c for c in calls(fi, "self.register_task") if _is_var(fi, arg(c, 0, "name"), cache) and _scheduled(fi, c) is not None
+                and rchain(fi, _scheduled(fi, c)[0]) == "self._on_timeout" and arg(c, None, "delay") is not None
+                and any(_is_var(fi, a, cache) for a in [*_scheduled(fi, c)[1], *_scheduled(fi, c)[2].values()])]
         rn = [n for c in regs for n in cfg.nodes_for(c)]
-        ok = bool(rn) and all(cfg.always_followed_by(sn, rn) for sn in cfg.nodes_for(st))
+        ok = bool(rn) and bool(stored_starts) and cfg.exit not in cfg.reach(stored_starts, cut_nodes=rn, follow_exc=False)
         ctx.check(ok, "add-gates", fi, st, "every registered cache gets its timeout task register_task(cache, _on_timeout, cache, delay=..)",
                   "a cache is stored without a timeout task: it is never resolved if no response arrives")
         for c in regs:
@@ -1188,10 +2557,8 @@ def rule_add(ctx: Ctx) -> None:
                       "the timeout task is not scheduled with the cache's own timeout_delay", [f"delay values: {sorted(set(leaves))}"])
     # success is reported only after the store: every other way out (shutdown, duplicate) returns None.  A returned local
     # (result variable) is judged by its definitions: each one that is not None must itself come after the store.
-    sn = [n for st in sts for n in cfg.nodes_for(st)]
-
     def after_store(x: ast.AST) -> bool:
-        return all(cfg.must_complete(n, sn) for n in cfg.nodes_for(x))
+        return all(cfg.must_pass_edges(n, stored_edge) for n in cfg.nodes_for(x))
 
     def unstored_sources(r: ast.Return) -> list[ast.AST]:
         v = strip_cast(r.value) if r.value is not None else None
@@ -1213,10 +2580,10 @@ def rule_add(ctx: Ctx) -> None:
             ctx.check(not bad, "add-gates", fi, r, "add returns None unless the cache was stored", "add reports success without having stored the cache")
     # the shutdown branch cancels the futures tied to the refused cache
     cancels = []
-    for c in calls(fi):
-        if call_name(c) == "cancel" and isinstance(c.func, ast.Attribute) and any(shut(f, True) for f in _facts(fi, cfg, c)):
-            kind, loops = _site_kind(fi, c.func.value, {cache: "cache"})
-            if kind == "future" and _complete(loops):
+    for c, fut in _cancel_sites(fi):
+        if any(shut(f, True) for f in _facts(fi, cfg, c)):
+            kind, loops = _site_kind(fi, fut, {cache: "cache"})
+            if kind == "future" and _complete(loops) and _cancels_each(ctx, fi, c, fut, loops, ignore=[f.atom for f in _facts(fi, cfg, loops[-1])]):
                 cancels.append((c, loops))
     ctx.check(bool(cancels), "add-gates", fi, fi.node, "futures of a cache refused at shutdown are cancelled",
               "futures tied to a cache that is refused after shutdown are left pending forever")
@@ -1229,14 +2596,14 @@ def rule_add(ctx: Ctx) -> None:
     # ... and only there: while the table accepts requests, the offered cache may be the outstanding one itself (re-add) or
     # share its futures with it; a tied future is resolved by the response or the timeout, never by a refused add
     for c in calls(fi):
-        alts = [a for a in _callee_alts(fi, c.func) if isinstance(a, ast.Attribute) and a.attr in ("cancel", "set_result", "set_exception")]
-        if alts and any(_site_kind(fi, a.value, {cache: "cache"})[0] == "future" for a in alts):
+        alts = [r for m, r, _ in _method_uses(fi, c) if m in ("cancel", "set_result", "set_exception")]
+        if alts and any(_site_kind(fi, r, {cache: "cache"})[0] == "future" for r in alts):
             ctx.check(any(shut(f, True) for f in _facts(fi, cfg, c)), "add-gates", fi, c,
                       "add resolves futures of the offered cache only when it refuses the cache at shutdown",
                       "add cancels / completes the managed futures of a cache it refuses (or stores) while not shut down: when that cache is the "
                       "outstanding request itself, or shares its futures, the outstanding request's futures are resolved without response or timeout")
     # NumberCache.__init__
-    ni = ctx.repo.method("NumberCache", "__init__", RC)
+    ni = _view(ctx, ctx.repo.method("NumberCache", "__init__", RC))
     cfgn = ctx.cfg(ni)
     p = ni.params()
     for st, t in stores(ni, ["self._prefix", "self._number"]):
@@ -1263,7 +2630,7 @@ def rule_add(ctx: Ctx) -> None:
     ctx.anchor(ci, "RequestCache._create_identifier")
     pnum, ppre = _ident_roles(ci)
     rets = [r for r in walk_no_nested(ci.node) if isinstance(r, ast.Return)]
-    parts = _string_parts(resolve(ci, rets[0].value)) if len(rets) == 1 and rets[0].value is not None else None
+    parts = _string_parts(_fold_named_constants(ci, resolve(ci, rets[0].value))) if len(rets) == 1 and rets[0].value is not None else None
     vals = [v for k, v in parts or [] if k == "val"]
     # both components enter the string exactly once, with a separator between them that cannot be part of a number
     # (without one, ('a1', 2) and ('a', 12) would share an identity)
@@ -1288,54 +2655,109 @@ def _has_fact(fi: FuncInfo, f: Fact, recv: str, prefix: str, number: str) -> boo
     return a0 is not None and a1 is not None and prefix in (norm(a0), norm(resolve(fi, a0))) and number in (norm(a1), norm(resolve(fi, a1)))
 
 
+def _accepting_iter(fu: FuncInfo, it: ast.AST, recv: str, prefix: str) -> bool:
+    """the first element the iterable hands out (every element, for the filters) passed the test `not <recv>.has(prefix, element)`:
+    a generator expression filtered by it, filter / filterfalse with such a predicate, or dropwhile(<in use>, ..) whose first
+    element is the first one the predicate rejects.  Predicates may be lambdas, partial(<recv>.has, prefix), bound methods."""
+    g = strip_cast(resolve(fu, it))
+    if isinstance(g, ast.GeneratorExp) and isinstance(g.elt, ast.Name):
+        last = g.generators[-1]
+        return isinstance(last.target, ast.Name) and last.target.id == g.elt.id and \
+            any(_has_fact(fu, f, recv, prefix, g.elt.id) for c in last.ifs for f in _atoms_with_polarity(c, True))
+    if isinstance(g, ast.Call) and len(g.args) == 2 and not g.keywords and not any(isinstance(a, ast.Starred) for a in g.args):
+        kind = _last(chain(g.func))
+        if kind in ("filter", "filterfalse", "dropwhile") and not _is_none(g.args[0]):
+            x = "element_"
+            while x in _names(fu.node):
+                x += "_"
+            test = _apply_callable(fu, g.args[0], ast.Name(x, ast.Load()))
+            return any(_has_fact(fu, f, recv, prefix, x) for f in _atoms_with_polarity(test, kind == "filter"))
+    return False
+
+
+def _accepting_next(fu: FuncInfo, val: ast.AST | None, recv: str, prefix: str) -> tuple[bool, bool]:
+    """val is `next(<accepting iterable>[, None])`: an accepted number, or the default -> (recognised, has a None default)"""
+    val = strip_cast(val) if val is not None else None
+    if not (isinstance(val, ast.Call) and chain(val.func) == "next" and 1 <= len(val.args) <= 2 and not val.keywords
+            and not any(isinstance(a, ast.Starred) for a in val.args)):
+        return False, False
+    if len(val.args) == 2 and not _is_none(val.args[1]):
+        return False, False
+    return _accepting_iter(fu, val.args[0], recv, prefix), len(val.args) == 2
+
+
 def _next_accepted(fu: FuncInfo, v: str, recv: str, prefix: str) -> tuple[bool, bool]:
-    """Every definition of v is `next(<generator expression>[, None])` whose elements are filtered by `not has(prefix, element)`:
-    v is an accepted number or the default.  -> (recognised, has a None default)"""
+    """Every definition of v is `next(<accepting iterable>[, None])`: v is an accepted number or the default.
+    -> (recognised, has a None default)"""
     defs = local_defs(fu, v)
     if not defs or v in fu.params():
         return False, False
     default = False
     for _, val, idx in defs:
-        val = strip_cast(val) if val is not None else None
-        if idx is not None or not (isinstance(val, ast.Call) and chain(val.func) == "next" and 1 <= len(val.args) <= 2 and not val.keywords):
+        known, d = _accepting_next(fu, val, recv, prefix) if idx is None else (False, False)
+        if not known:
             return False, False
-        if len(val.args) == 2:
-            if not _is_none(val.args[1]):
-                return False, False
-            default = True
-        g = resolve(fu, val.args[0])
-        if not (isinstance(g, ast.GeneratorExp) and isinstance(g.elt, ast.Name)):
-            return False, False
-        last = g.generators[-1]
-        if not (isinstance(last.target, ast.Name) and last.target.id == g.elt.id):
-            return False, False
-        if not any(_has_fact(fu, f, recv, prefix, g.elt.id) for c in last.ifs for f in _atoms_with_polarity(c, True)):
-            return False, False
+        default = default or d
     return True, default
 
 
-def _find_unclaimed(ctx: Ctx) -> None:
-    """RandomNumberCache.find_unclaimed_identifier: a number leaves the function only through the outcome `not has(prefix, number)`
-    of a test made after the number's last assignment; every other way out raises."""
-    fu = _view(ctx, ctx.repo.method("RandomNumberCache", "find_unclaimed_identifier", RC))
+def _free_numbers_only(ctx: Ctx, fu: FuncInfo, recv: str, prefix: str, depth: int = 2) -> tuple[bool, bool]:
+    """(every number that leaves fu was accepted by the outcome `not <recv>.has(prefix, number)` of a test made after the number's
+    last assignment, fu can also end normally with None instead of a number).  A number may come from a generator filtered by that
+    test, or from a helper - a search loop that returns from inside - for which the same holds with its parameters bound to
+    (recv, prefix); a None it may hand back has to be excluded before the number is passed on."""
     cfg = ctx.cfg(fu)
-    p = fu.params()
     rets = [r for r in walk_no_nested(fu.node) if isinstance(r, ast.Return)]
     ok = bool(rets)
     accept_all = []
-    filtered = []          # returns of a value that a filtering generator already accepted
+    settled = []          # returns of a value that a filtering generator / a helper already accepted, and returns of None
     for r in rets:
         v = strip_cast(r.value) if r.value is not None else None
+        if _is_none(v):
+            continue
+        not_none = isinstance(v, ast.Name) and any(f.op == "is" and not f.pos and _is_none(f.right) and isinstance(f.left, ast.Name) and f.left.id == v.id
+                                                   for f in _facts(fu, cfg, r))
+        if isinstance(v, ast.Call) and chain(v.func) == "next":
+            # `return next(<accepting iterable>)`: exhaustion raises StopIteration here - whatever becomes of it, no number is returned
+            known, default = _accepting_next(fu, v, recv, prefix)
+            ok = ok and known and not default
+            settled += cfg.nodes_for(r)
+            continue
+        sources = [v] if isinstance(v, ast.Call) else [strip_cast(val) if val is not None and idx is None else None for _, val, idx in local_defs(fu, v.id)] \
+            if isinstance(v, ast.Name) and v.id not in fu.params() else []
+        if sources and all(isinstance(x, ast.Call) and chain(x.func) != "next" for x in sources) and depth > 0:
+            # handed over by a helper: the same question about the helper
+            good = True
+            for x in sources:
+                tg = _targets(ctx, fu, x)
+                h = _view(ctx, tg[0][0]) if len(tg) == 1 and not tg[0][0].is_async and tg[0][0].node is not fu.node else None
+                bound = _bind_call(x, h) if h is not None else None
+                if bound is None and h is not None and h.cls is not None and isinstance(x.func, ast.Attribute):
+                    bound = _bind_call(x, h)
+                if h is None or bound is None:
+                    good = False
+                    break
+                if "classmethod" in h.decorator_names() and isinstance(x.func, ast.Attribute):
+                    pass          # _bind_call skipped the bound class already
+                q_recv = next((k for k, e in bound.items() if isinstance(strip_cast(e), ast.Name) and strip_cast(e).id == recv), None)
+                q_pre = next((k for k, e in bound.items() if isinstance(strip_cast(e), ast.Name) and strip_cast(e).id == prefix), None)
+                if q_recv is None or q_pre is None or local_defs(h, q_recv) or local_defs(h, q_pre) or local_defs(fu, recv) or local_defs(fu, prefix):
+                    good = False
+                    break
+                sub_ok, sub_none = _free_numbers_only(ctx, h, q_recv, q_pre, depth - 1)
+                good = good and sub_ok and (not sub_none or not_none)
+            if good:
+                settled += cfg.nodes_for(r)
+                continue
         if not isinstance(v, ast.Name):
             ok = False
             continue
-        known, default = _next_accepted(fu, v.id, p[1], p[2])
+        known, default = _next_accepted(fu, v.id, recv, prefix)
         if known:
-            ok = ok and (not default or any(f.op == "is" and not f.pos and _is_none(f.right) and isinstance(f.left, ast.Name) and f.left.id == v.id
-                                            for f in _facts(fu, cfg, r)))
-            filtered += cfg.nodes_for(r)
+            ok = ok and (not default or not_none)
+            settled += cfg.nodes_for(r)
             continue
-        accept = [(n, lab) for n in cfg.nodes if n.kind == "cond" for lab in (True, False) if _has_fact(fu, fact_of(n.ast, lab), p[1], p[2], v.id)]
+        accept = [(n, lab) for n in cfg.nodes if n.kind == "cond" for lab in (True, False) if _has_fact(fu, fact_of(n.ast, lab), recv, prefix, v.id)]
         accept_all += accept
 
         def cut(a, b, lab, accept=accept):
@@ -1344,9 +2766,22 @@ def _find_unclaimed(ctx: Ctx) -> None:
         starts = [cfg.entry] + [s for d in defs for s, lab in d.succ if lab != "exc"]
         reach = cfg.reach(starts, cut_edge=cut)
         ok = ok and bool(accept) and not any(n in reach for n in cfg.nodes_for(r))
+    # ways to the normal exit without an accepted number: `return None` / falling off the end
+    none_nodes = [n for r in rets if _is_none(strip_cast(r.value) if r.value is not None else None) for n in cfg.nodes_for(r)]
+    r0 = cfg.reach(cut_edge=lambda a, b, lab: any(a is n and lab is l for n, l in accept_all), cut_nodes=settled + none_nodes)
+    falls_off = cfg.exit in r0
+    gives_none = falls_off or any(n in cfg.reach() for n in none_nodes)
+    return ok, gives_none
+
+
+def _find_unclaimed(ctx: Ctx) -> None:
+    """RandomNumberCache.find_unclaimed_identifier: a number leaves the function only through the outcome `not has(prefix, number)`
+    of a test made after the number's last assignment; every other way out raises."""
+    fu = _view(ctx, ctx.repo.method("RandomNumberCache", "find_unclaimed_identifier", RC))
+    p = fu.params()
+    ok, gives_none = _free_numbers_only(ctx, fu, p[1], p[2])
     # exhaustion raises: no normal exit without an accepted number
-    ok = ok and cfg.exit not in cfg.reach(cut_edge=lambda a, b, lab: any(a is n and lab is l for n, l in accept_all), cut_nodes=filtered)
-    ctx.check(ok, "duplicate-guard", fu, fu.node, "random identifier accepted only if not in use; exhaustion raises",
+    ctx.check(ok and not gives_none, "duplicate-guard", fu, fu.node, "random identifier accepted only if not in use; exhaustion raises",
               "find_unclaimed_identifier can return a number that is in use")
 
 
@@ -1377,20 +2812,29 @@ def rule_shutdown(ctx: Ctx) -> None:
         return _holds_lock(n) or (via is not None and _holds_lock(via))
     flag = [s for s, t in stores(fi, "self._shutdown") if const_value(s.value) is True]
     cancel_all = _effect_sites(ctx, fi, lambda f: calls(f, "self.cancel_all_pending_tasks"))
-    clears = _effect_sites(ctx, fi, lambda f: _tcalls(f, "clear"))
+    clears = _effect_sites(ctx, fi, _table_clears)
     # <future>.cancel() for every future of every cache in the table, whatever the loop / comprehension spelling
     fut_cancel = []
     ordered = []          # what has to happen before the table is cleared: the cancel loop, or the eager copy it walks
     # a loop that drains the table entry by entry both reads every cache and leaves the table empty
     drain_like = [w for w in walk_no_nested(fi.node) if _drain_items(fi, w)]
     drains = [w for w in drain_like if _complete([w])]
-    for c in calls(fi):
-        if call_name(c) == "cancel" and isinstance(c.func, ast.Attribute) and not c.args:
-            kind, loops = _site_kind(fi, c.func.value, {})
-            guards = [f for f in facts_at(cfg, c) if not any(f.atom is x for w in drains for x in ast.walk(w.test))]
-            if kind == "future" and _complete(loops) and _only_done_guards(fi, guards, c.func.value):
+    for c, fut in _cancel_sites(fi):
+        kind, loops = _site_kind(fi, fut, {})
+        if kind == "future" and _complete(loops) and _cancels_each(ctx, fi, c, fut, loops, ignore=[x for w in drains for x in ast.walk(w.test)]):
+            # nothing but the traversal itself decides whether the loop over the futures is entered
+            outer_guards = [f for f in facts_at(cfg, loops[0]) if not any(f.atom is x for w in drains for x in ast.walk(w.test))] \
+                if isinstance(loops[0], (ast.For, ast.AsyncFor)) else []
+            if all(_nonempty_guard(fi, f, loops) for f in outer_guards):
                 fut_cancel.append(c)
                 ordered.append(_snapshot_stmt(fi, loops) or c)
+    # tied futures of outstanding caches end in exactly one way at shutdown: cancelled.  Completing them with the value / exception
+    # chosen for a timeout reports a timeout that never happened (on_timeout did not run) to whoever awaits them.
+    for c, alts in _completion_sites(fi):
+        ctx.check(not any(_site_kind(fi, r, {})[0] == "future" for r in alts), "shutdown", fi, c,
+                  "shutdown does not complete futures tied to outstanding caches with a value",
+                  "RequestCache.shutdown completes a future tied to a still outstanding cache with set_result / set_exception (as if the request "
+                  "had timed out) instead of cancelling it: after shutdown tied futures must be cancelled, and no timeout has fired")
     reads = _tcalls(fi, "values") + _tcalls(fi, "items") + [st for w in drains for st in _drain_items(fi, w)]
     if not clears and not drain_like and (_tcalls(fi, "popitem") or _tcalls(fi, "pop")) and flag and cancel_all:
         raise AnalysisError("undecided: RequestCache.shutdown empties _identifiers entry by entry (pop / popitem) in a way that is not recognised")
@@ -1408,8 +2852,8 @@ def rule_shutdown(ctx: Ctx) -> None:
         after_clear = cfg.reach([v for n in cl for v, lab in n.succ] + emptied)
         ctx.check(not any(n in after_clear for x in reads + ordered for n in cfg.nodes_for(x)), "shutdown", fi, clears[0],
                   "tied futures are cancelled before the table is cleared", "the table is cleared before the tied futures are cancelled (nothing left to cancel)")
-    clr = _impl(ctx, "clear")
-    ok = bool(_effect_sites(ctx, clr, lambda f: calls(f, "self.cancel_all_pending_tasks"))) and bool(_effect_sites(ctx, clr, lambda f: _tcalls(f, "clear")))
+    clr = _view(ctx, _impl(ctx, "clear"))
+    ok = bool(_effect_sites(ctx, clr, lambda f: calls(f, "self.cancel_all_pending_tasks"))) and bool(_effect_sites(ctx, clr, _table_clears))
     ctx.check(ok, "shutdown", clr, clr.node, "clear cancels all timeout tasks and empties the table", "clear leaves timeout tasks armed")
 
 
@@ -1426,6 +2870,7 @@ def _effect_sites(ctx: Ctx, fi: FuncInfo, finder, depth: int = 2) -> list[ast.AS
         m = fi.cls.lookup(ch[5:])
         if m is None or m.node is fi.node or m.is_async or m.cls is not fi.cls:
             continue
+        m = _view(ctx, m)
         sub = _effect_sites(ctx, m, finder, depth - 1)
         if not sub:
             continue
@@ -1454,19 +2899,49 @@ def _snapshot_stmt(fi: FuncInfo, loops: list[ast.For]) -> ast.stmt | None:
     return d[0][0] if eager and reads_table else None
 
 
+def _only_reached_from(ctx: Ctx, fi: FuncInfo, rc, depth: int = 3) -> bool:
+    """fi is a NEW private function / method of RequestCache's own module (not part of the reviewed code) that is only ever called from
+    RequestCache's methods or from other such helpers, and never passed around as a value: an extracted step of RequestCache"""
+    try:
+        from ..localnames import load_table
+        table = load_table().get(RC) or {}
+    except Exception:  # noqa: BLE001
+        return False
+    if fi.module is not rc.module or fi.qualname in table or not fi.name.startswith("_") or fi.name.startswith("__") and fi.name != "__call__" or depth <= 0:
+        return False
+    name = fi.name
+    if fi.name == "__call__":
+        return False
+    sites = list(ctx.repo.callers_of_name(name))
+    if not sites:
+        return False
+    for m, caller, c in sites:
+        if caller is None or not (caller.cls is rc or caller.node is fi.node or _only_reached_from(ctx, caller, rc, depth - 1)):
+            return False
+    # every mention of the name is one of those calls
+    callee_ids = {id(c.func) for _, _, c in sites}
+    for mod in ctx.repo.modules.values():
+        for x in ast.walk(mod.tree):
+            if ((isinstance(x, ast.Attribute) and x.attr == name) or (isinstance(x, ast.Name) and x.id == name and isinstance(x.ctx, ast.Load))) \
+                    and id(x) not in callee_ids:
+                return False
+    return True
+
+
 def rule_who(ctx: Ctx) -> None:
     repo = ctx.repo
     rc = repo.cls("RequestCache", RC)
     n = 0
     for m, fi, a in repo.attribute_uses("_identifiers"):
         n += 1
-        ctx.check(fi is not None and fi.cls is rc, "table-writers", fi or m.relpath, enclosing_stmt(a), "_identifiers used only inside RequestCache",
-                  "the identifier table is accessed from outside RequestCache")
+        ctx.check(fi is not None and (fi.cls is rc or _only_reached_from(ctx, fi, rc)), "table-writers", fi or m.relpath, enclosing_stmt(a),
+                  "_identifiers used only inside RequestCache", "the identifier table is accessed from outside RequestCache")
     ctx.floor("table-writers", n, 8)
     rf = _view(ctx, _retrieve_wrapper(ctx))
     cfg = ctx.cfg(rf)
     pops = [c for c in calls(rf) if call_name(c) == "pop"]
-    fcalls = [c for c in calls(rf, "func")]
+    fcalls = _handler_calls(rf)
+    ctx.anchor(fcalls, "the call of the decorated handler in retrieve_cache's wrapper")
     if not pops:
         claims = _claim_helper_calls(ctx, rf, fcalls)
         if claims:
@@ -1484,13 +2959,39 @@ def rule_who(ctx: Ctx) -> None:
         def popped(v) -> bool:
             if any(strip_cast(resolve(rf, v)) is p for p in pops):
                 return True
+            # looked up with get() under the very key that is then popped (the pop, checked below to complete before the handler
+            # runs, removes and returns that same object)
+            g = strip_cast(resolve(rf, v))
+            if isinstance(g, ast.Call) and isinstance(g.func, ast.Attribute) and g.func.attr == "get" and not g.keywords and len(g.args) == 2 \
+                    and any(isinstance(p.func, ast.Attribute) and _same_value(rf, p.func.value, g.func.value) and len(p.args) == 2 and not p.keywords
+                            and all(_same_value(rf, x, y) for x, y in zip(p.args, g.args)) for p in pops):
+                return True
             return isinstance(v, ast.Name) and any(st is enclosing_stmt(p) and val is not None and strip_cast(val) is p
                                                    for st, val, _ in local_defs(rf, v.id) for p in pops)
         ok = any(k.arg == "cache" and popped(k.value) for k in c.keywords)
         pn = [n for p in pops for n in cfg.nodes_for(p)]
         ok = ok and all(cfg.must_complete(n, pn) for n in cfg.nodes_for(c))
         ctx.check(ok, "late-response", rf, c, "handler runs only after a successful pop, with the popped cache", "handler can run without a claimed cache")
+    _never_handed_back(ctx, rf, pops)
     _pop_census(ctx)
+
+
+def _never_handed_back(ctx: Ctx, fi: FuncInfo, sources: list[ast.Call]) -> None:
+    """A cache that retrieve_cache claimed stays claimed: nothing in the wrapper (or its claim helper) registers it again.  A popped
+    cache had its timeout task cancelled and its handler started; `add`ing it back (e.g. when the handler raises) makes the
+    request outstanding a second time - a retransmitted response is handled again and a fresh timeout fires for a request that
+    was already claimed."""
+    bad = []
+    for c in calls(fi):
+        if not any(m == "add" for m, _, _ in _method_uses(fi, c)):
+            continue
+        vals = [a.value if isinstance(a, ast.Starred) else a for a in c.args] + [k.value for k in c.keywords]
+        if any(any(x is p for p in sources) for v in vals for x in _value_leaves(fi, v)):
+            bad.append(c)
+    ctx.check(not bad, "late-response", fi, bad[0] if bad else fi.node, "retrieve_cache never registers the claimed cache again",
+              "retrieve_cache hands the cache it popped back to the request cache with add(): a request that was already claimed by a response "
+              "(timeout task cancelled, handler started) becomes outstanding again - it can be claimed a second time and its timeout fires "
+              "although it was claimed")
 
 
 def _retrieve_wrapper(ctx: Ctx) -> FuncInfo:
@@ -1501,8 +3002,23 @@ def _retrieve_wrapper(ctx: Ctx) -> FuncInfo:
         return named[0]
     inner = [f for f in m.all_functions if f.qualname.startswith("retrieve_cache.")
              and not any(isinstance(x, (ast.FunctionDef, ast.AsyncFunctionDef)) and x is not f.node for x in ast.walk(f.node))]
+    if len(inner) != 1:
+        # wherever it lives now (a callable decorator object, a module-level factory): the one function of the module that calls the
+        # handler it decorates - a parameter of a function around it - with a `cache=` argument
+        inner = [f for f in m.all_functions if any(any(k.arg == "cache" for k in c.keywords) for c in _handler_calls(f))]
     ctx.anchor(len(inner) == 1, "function retrieve_cache.decorator.wrapper in ipv8/lazy_community.py")
     return inner[0]
+
+
+def _handler_calls(rf: FuncInfo) -> list[ast.Call]:
+    """calls of the decorated handler in the per-message wrapper: the callee is a parameter of a function around the wrapper (the
+    reviewed name is `func`)"""
+    outer = set()
+    for sc in _scopes(rf)[1:]:
+        a = sc.args
+        outer |= {x.arg for x in a.posonlyargs + a.args + a.kwonlyargs}
+    own = set(rf.params()) | {n.id for n in walk_no_nested(rf.node) if isinstance(n, ast.Name) and isinstance(n.ctx, ast.Store)}
+    return [c for c in calls(rf) if isinstance(c.func, ast.Name) and c.func.id not in own and (c.func.id in outer or c.func.id == "func")]
 
 
 def _payload_identifier(rf: FuncInfo, e: ast.AST) -> bool:
@@ -1593,15 +3109,90 @@ def _edge_label(f: Fact) -> bool:
     return fact_of(f.atom, True).pos == f.pos
 
 
-def _claim_helper_calls(ctx: Ctx, rf: FuncInfo, fcalls: list[ast.Call]) -> list[tuple[ast.Call, FuncInfo]]:
+def _scopes(fi: FuncInfo) -> list[ast.AST]:
+    """fi's own function node and the function nodes that lexically enclose it, innermost first (a view stands for its original)"""
+    node = fi.node.__dict__.get("_c10_origin", fi.node)
+    return [node] + [a for a in ancestors(node) if isinstance(a, (ast.FunctionDef, ast.AsyncFunctionDef))]
+
+
+def _scope_binding(scope: ast.AST, name: str) -> list[ast.AST]:
+    """what `name` is bound to in the function `scope` itself: nested function definitions and values of plain assignments;
+    [None] entries stand for bindings that are not understood (parameters, loop targets ..)"""
+    out: list = []
+    a = scope.args
+    if name in {x.arg for x in a.posonlyargs + a.args + a.kwonlyargs} | ({a.vararg.arg} if a.vararg else set()) | ({a.kwarg.arg} if a.kwarg else set()):
+        return [None]
+    for n in walk_no_nested(scope):
+        if isinstance(n, (ast.FunctionDef, ast.AsyncFunctionDef)) and n is not scope and n.name == name:
+            out.append(n)
+        elif isinstance(n, ast.Name) and n.id == name and isinstance(n.ctx, (ast.Store, ast.Del)):
+            p_ = parent(n)
+            if isinstance(p_, ast.Assign) and len(p_.targets) == 1 and p_.targets[0] is n:
+                out.append(p_.value)
+            elif isinstance(p_, ast.AnnAssign) and p_.target is n and p_.value is not None:
+                out.append(p_.value)
+            else:
+                out.append(None)
+    return out
+
+
+def _targets(ctx: Ctx, fi: FuncInfo, call: ast.Call) -> list[tuple[FuncInfo, dict[str, ast.expr]]]:
+    """The functions of this repository a call may run, each with what its receiver's attributes stand for: what the engine
+    resolves, a function defined in a lexically enclosing function (closures next to each other), and the `__call__` of a
+    private callable object `name = K(args)` bound once in fi or an enclosing function (its `self.x` is the constructor
+    argument that K.__init__ stores there)."""
+    try:
+        tg = [(t, {}) for t in ctx.repo.resolve_call(fi, call) if isinstance(t, FuncInfo)]
+    except Exception:  # noqa: BLE001
+        tg = []
+    f = call.func
+    if tg and not (len(tg) == 1 and tg[0][0].name == "__init__") or not isinstance(f, ast.Name):
+        return tg
+    for scope in _scopes(fi):
+        b = _scope_binding(scope, f.id)
+        if not b:
+            continue
+        if len(b) != 1 or b[0] is None:
+            return []
+        v = b[0]
+        if isinstance(v, (ast.FunctionDef, ast.AsyncFunctionDef)):
+            info = getattr(v, "_info", None)
+            return [(info, {})] if isinstance(info, FuncInfo) else []
+        v = strip_cast(v)
+        if isinstance(v, ast.Call):
+            k = _class_of(fi.module, v.func)
+            m = k.lookup("__call__") if k is not None else None
+            if m is None:
+                return []
+            init = k.lookup("__init__")
+            fields: dict[str, ast.expr] = {}
+            if init is not None:
+                bound = _bind_call(ast.Call(ast.Attribute(v.func, "__init__", ast.Load()), v.args, v.keywords), init)
+                if bound is None:
+                    return []
+                for st, t in stores(init, lambda c_: c_.startswith("self.") and c_.count(".") == 1):
+                    if isinstance(st, (ast.Assign, ast.AnnAssign)) and st.value is not None and isinstance(strip_cast(st.value), ast.Name) \
+                            and strip_cast(st.value).id in bound and not local_defs(init, strip_cast(st.value).id):
+                        fields[t.attr] = bound[strip_cast(st.value).id]
+                # a field stored more than once (or elsewhere in the class) is not the constructor argument any more
+                for meth in k.methods.values():
+                    for st, t in stores(meth, lambda c_: c_.startswith("self.") and c_.count(".") == 1):
+                        if meth is not init or sum(1 for _, t2 in stores(init, "self." + t.attr)) > 1:
+                            fields.pop(t.attr, None)
+            return [(m, fields)]
+        return []
+    return tg
+
+
+def _claim_helper_calls(ctx: Ctx, rf: FuncInfo, fcalls: list[ast.Call]) -> list[tuple[ast.Call, FuncInfo, dict]]:
     """calls in the wrapper to a helper (same module) that does the request_cache.pop"""
     out = []
     for c in calls(rf):
         if c in fcalls:
             continue
-        tg = [t for t in ctx.repo.resolve_call(rf, c) if isinstance(t, FuncInfo)]
-        if len(tg) == 1 and tg[0].module is rf.module and tg[0].node is not rf.node and any(call_name(x) == "pop" for x in calls(tg[0])):
-            out.append((c, tg[0]))
+        tg = _targets(ctx, rf, c)
+        if len(tg) == 1 and tg[0][0].module is rf.module and tg[0][0].node is not rf.node and any(call_name(x) == "pop" for x in calls(tg[0][0])):
+            out.append((c, tg[0][0], tg[0][1]))
     return out
 
 
@@ -1613,22 +3204,74 @@ def _pop_results(fi: FuncInfo, e: ast.AST | None, pops: list[ast.Call]) -> bool:
     return bool(leaves) and all(any(x is p for p in pops) for x in leaves)
 
 
+def _component(fi: FuncInfo, e: ast.AST, results: dict) -> tuple[ast.Call, object] | None:
+    """e is one component of the result of a call listed in `results` (id(call) -> (.., .., shape of the result)): a name unpacked
+    from it, or `.field` / `[index]` of the one local that holds it -> (call, field)"""
+    e = strip_cast(e)
+
+    def held(x) -> ast.Call | None:
+        if not isinstance(x, ast.Name) or x.id in fi.params():
+            return None
+        d = local_defs(fi, x.id)
+        v = strip_cast(d[0][1]) if len(d) == 1 and d[0][1] is not None and d[0][2] is None else None
+        return v if isinstance(v, ast.Call) and id(v) in results else None
+
+    def field(call, k):
+        shape = results[id(call)][2]
+        if isinstance(k, int) and not isinstance(k, bool):
+            if shape[0] == "tuple":
+                return k % shape[1] if -shape[1] <= k < shape[1] else None
+            if shape[0] == "class" and shape[3]:
+                return shape[2][k] if -len(shape[2]) <= k < len(shape[2]) else None
+            return None
+        if isinstance(k, str) and (shape[0] == "dict" and k in shape[1] or shape[0] == "class" and k in shape[2]):
+            return k
+        return None
+    if isinstance(e, ast.Name) and e.id not in fi.params():
+        d = local_defs(fi, e.id)
+        if len(d) == 1 and d[0][1] is not None and d[0][2] is not None:
+            v = strip_cast(d[0][1])
+            call = v if isinstance(v, ast.Call) and id(v) in results else held(v)
+            f = field(call, d[0][2]) if call is not None else None
+            return (call, f) if f is not None else None
+        r = resolve(fi, e)
+        return _component(fi, r, results) if r is not e else None
+    if isinstance(e, ast.Attribute) and held(strip_cast(e.value)) is not None:
+        call = held(strip_cast(e.value))
+        f = field(call, e.attr) if results[id(call)][2][0] == "class" else None
+        return (call, f) if f is not None else None
+    if isinstance(e, ast.Subscript) and held(strip_cast(e.value)) is not None and const_value(e.slice) is not NOCONST:
+        call = held(strip_cast(e.value))
+        k = const_value(e.slice)
+        f = field(call, k) if (results[id(call)][2][0] != "class" or isinstance(k, int)) else None
+        return (call, f) if f is not None else None
+    return None
+
+
 def _late_response_via_helper(ctx: Ctx, rf: FuncInfo, claims: list[tuple[ast.Call, FuncInfo]], fcalls: list[ast.Call]) -> None:
     """The pop lives in a helper that reports the outcome (the claimed cache, or None after KeyError); the wrapper acts on it."""
     cfg = ctx.cfg(rf)
     good: list[ast.Call] = []
-    flagged: dict[int, tuple[int, int]] = {}          # claim call -> (index of the flag, index of the cache) in its result pair
-    for c, h in claims:
+    always: set[int] = set()                          # claim calls that end normally only with the cache they popped
+    flagged: dict[int, tuple] = {}          # claim call -> (flag component, cache component, shape) of its result pair / object
+    for c, h, fields in claims:
         h = _view(ctx, h)
         pops = [x for x in calls(h) if call_name(x) == "pop"]
-        b = _bind_call(c, h) or {}
+        b = _bind_call(c, h) if isinstance(c.func, ast.Attribute) or h.name != "__call__" else \
+            _bind_call(ast.Call(ast.Attribute(c.func, "__call__", ast.Load()), c.args, c.keywords), h)
+        b = b or {}
+        recv = h.params()[0] if h.name == "__call__" and h.cls is not None and h.params() else None
 
-        def up(e, h=h, b=b) -> str:
-            # the helper's expression written in the wrapper's terms (its parameters replaced by the call's arguments)
+        def up(e, h=h, b=b, fields=fields, recv=recv) -> str:
+            # the helper's expression written in the wrapper's terms (its parameters replaced by the call's arguments, the
+            # attributes of a callable object by the constructor arguments they hold)
             e = resolve(h, e)
-            root = e
+            root, path = e, []
             while isinstance(root, ast.Attribute):
+                path.append(root.attr)
                 root = root.value
+            if isinstance(root, ast.Name) and root.id == recv and path and path[-1] in fields and not local_defs(h, root.id):
+                return ".".join([norm(fields[path[-1]]), *reversed(path[:-1])])
             if isinstance(root, ast.Name) and root.id in b and not local_defs(h, root.id):
                 return norm(resolve(rf, b[root.id])) + norm(e)[len(root.id):]
             return norm(e)
@@ -1636,27 +3279,40 @@ def _late_response_via_helper(ctx: Ctx, rf: FuncInfo, claims: list[tuple[ast.Cal
         # together with the popped cache
         rets = [r for r in walk_no_nested(h.node) if isinstance(r, ast.Return) and not _is_none(r.value)]
         quiet = None
+        hc = ctx.cfg(h)
         if pops and rets and all(_pop_results(h, r.value, pops) for r in rets):
             good.append(c)
-        elif pops and rets and all(isinstance(strip_cast(r.value), ast.Tuple) and len(strip_cast(r.value).elts) == 2 for r in rets):
-            elts = [strip_cast(r.value).elts for r in rets]
-            for i, j in ((0, 1), (1, 0)):
-                if all(isinstance(const_value(e[i]), bool) for e in elts) and any(const_value(e[i]) is True for e in elts) and \
-                        all(_pop_results(h, e[j], pops) for e in elts if const_value(e[i]) is True):
+            if all(not any(_is_none(x) for x in _value_leaves(h, r.value)) for r in rets) \
+                    and hc.exit not in hc.reach(cut_nodes=[n for r in rets for n in hc.nodes_for(r)]):
+                always.add(id(c))
+        elif pops and rets and all(_record_value(h, r.value) is not None for r in rets) and len({_record_value(h, r.value)[0] for r in rets}) == 1:
+            # a result object / pair: some component is a constant flag that is True only together with the popped cache in another
+            recs = [dict(_record_value(h, r.value)[1]) for r in rets]
+            shape = _record_value(h, rets[0].value)[0]
+            names = list(recs[0])
+            for i, j in ((i, j) for i in names for j in names if i != j):
+                if all(isinstance(const_value(e[i]), bool) for e in recs) and any(const_value(e[i]) is True for e in recs) and \
+                        all(_pop_results(h, e[j], pops) for e in recs if const_value(e[i]) is True):
                     good.append(c)
-                    flagged[id(c)] = (i, j)
+                    flagged[id(c)] = (i, j, shape)
 
-                    def quiet(v, i=i) -> bool:
-                        return isinstance(v, ast.Tuple) and len(v.elts) == 2 and const_value(v.elts[i]) is False
+                    def quiet(v, i=i, h=h, shape=shape) -> bool:
+                        rec = _record_value(h, v)
+                        return rec is not None and rec[0] == shape and const_value(dict(rec[1])[i]) is False
                     break
         for p in pops:
             ok = _keyerror_path_ok(ctx, h, p, [], quiet)
+            if not ok and _catching_handler(p) is None and not h.is_async:
+                # the helper lets the KeyError out: it arrives at the call in the wrapper, which has to end quietly from there
+                ok = _catching_handler(c) is not None and _keyerror_path_ok(ctx, rf, c, fcalls)
             ctx.check(ok, "late-response", h, p, "retrieve_cache: missing cache -> KeyError -> handler not called, returns None",
                       "a response without an outstanding request reaches the handler (or raises)")
             a0, a1 = arg(p, 0, "prefix"), arg(p, 1, "number")
             r1 = resolve(h, a1) if a1 is not None else None
             ok2 = a0 is not None and up(a0) == "cache_class.name" and isinstance(r1, ast.Attribute) and r1.attr == "identifier"
             ctx.check(ok2, "late-response", h, p, "cache matched by (cache_class.name, payload.identifier)", "retrieve_cache matches on something else")
+        _never_handed_back(ctx, h, pops)
+    _never_handed_back(ctx, rf, [c for c, _, _ in claims])
     ctx.check(bool(good), "late-response", rf, rf.node, "retrieve_cache claims the cache with request_cache.pop",
               "retrieve_cache no longer pops the cache: the same request can be answered twice and its timeout still fires")
     for c in fcalls:
@@ -1669,13 +3325,15 @@ def _late_response_via_helper(ctx: Ctx, rf: FuncInfo, claims: list[tuple[ast.Cal
             claimed = any((f.op == "is" and not f.pos and _is_none(f.right) and _same_value(rf, f.left, k.value))
                           or (f.op == "truthy" and f.pos and _same_value(rf, f.left, k.value)) for f in fs)
             ok = ok or (from_claim and claimed)
-            # `found, cache = helper(..)`: the cache component, used where the flag component is known to be true
-            d = local_defs(rf, k.value.id) if isinstance(k.value, ast.Name) else []
-            if len(d) == 1 and d[0][1] is not None and id(strip_cast(d[0][1])) in flagged and d[0][2] == flagged[id(strip_cast(d[0][1]))][1]:
-                fi_, _ = flagged[id(strip_cast(d[0][1]))]
-                flags = [x.id for x in ast.walk(d[0][0]) if isinstance(x, ast.Name) and isinstance(x.ctx, ast.Store)
-                         and [(st, idx) for st, _, idx in local_defs(rf, x.id)] == [(d[0][0], fi_)]]
-                ok = ok or any(f.op == "truthy" and f.pos and isinstance(f.left, ast.Name) and f.left.id in flags for f in fs)
+            # a claim that can only end normally with the popped cache needs no test of its result
+            lv = _value_leaves(rf, k.value)
+            ok = ok or (bool(lv) and all(any(x is g for g in good) and id(x) in always for x in lv))
+            # `found, cache = helper(..)` / `claim = helper(..)` .. `claim.cache`: the cache component, used where the flag
+            # component of the same result is known to be true
+            comp = _component(rf, k.value, flagged)
+            if comp is not None and comp[1] == flagged[id(comp[0])][1]:
+                want = (comp[0], flagged[id(comp[0])][0])
+                ok = ok or any(f.op == "truthy" and f.pos and _component(rf, f.left, flagged) == want for f in fs)
         ctx.check(ok, "late-response", rf, c, "handler runs only after a successful pop, with the popped cache", "handler can run without a claimed cache")
     _pop_census(ctx)
 
@@ -1748,6 +3406,19 @@ WITNESSES = [
     {"name": "shutdown flag after cancel", "file": RC, "rule": "shutdown",
      "old": "                self._shutdown = True\n                tasks = self.cancel_all_pending_tasks()\n",
      "new": "                tasks = self.cancel_all_pending_tasks()\n                self._shutdown = True\n"},
+    {"name": "shutdown completes valued futures instead of cancelling", "file": RC, "rule": "shutdown",
+     "old": "                for future, _ in cache.managed_futures:\n                    future.cancel()\n            self._identifiers.clear()",
+     "new": "                for future, value in cache.managed_futures:\n                    if value is None or future.done():\n"
+            "                        future.cancel()\n                    else:\n                        future.set_result(value)\n"
+            "            self._identifiers.clear()"},
+    {"name": "shutdown cancels only some futures", "file": RC, "rule": "shutdown",
+     "old": "                for future, _ in cache.managed_futures:\n                    future.cancel()\n            self._identifiers.clear()",
+     "new": "                for future, value in cache.managed_futures:\n                    if value is None or future.done():\n"
+            "                        future.cancel()\n            self._identifiers.clear()"},
+    {"name": "retrieve_cache hands the claimed cache back when the handler raises", "file": "ipv8/lazy_community.py", "rule": "late-response",
+     "old": "                return func(self, peer_or_addr, *payloads, cache=cache)\n",
+     "new": "                try:\n                    return func(self, peer_or_addr, *payloads, cache=cache)\n                except ValueError:\n"
+            "                    self.request_cache.add(cache)\n                    raise\n"},
     {"name": "retrieve_cache uses get", "file": "ipv8/lazy_community.py", "rule": "late-response",
      "old": "                cache = cast(\"RequestCache\", self.request_cache).pop(cache_class.name,  # type: ignore[attr-defined]\n                                                                     payload.identifier)  # type: ignore[attr-defined]",
      "new": "                cache = cast(\"RequestCache\", self.request_cache).get(cache_class.name,  # type: ignore[attr-defined]\n                                                                     payload.identifier)  # type: ignore[attr-defined]"},
